@@ -1384,6 +1384,24 @@ Proof.
   - destruct r; discriminate.
 Qed.
 
+Lemma flatten_pair : forall a b, flatten [a; b] = flatten [a] ++ flatten [b].
+Proof. intros. apply (flatten_app [a] [b]). Qed.
+
+Lemma mk_union_inner : forall T' X N,
+  flatten T' = X -> is_union N = false -> nodup_by ty_eqb (X ++ [N]) = true ->
+  mk_union [match T' with [] => mk_union [] | [x] => x | x :: y :: r => mk_union (x :: y :: r) end; N] = Union (X ++ [N]).
+Proof.
+  intros T' X N HX HN Hn. destruct (nodup_by_app _ _ _ Hn) as [HnX _].
+  assert (EN: flatten [N] = [N]) by (apply flatten_nonunion; intros t [<-|[]]; exact HN).
+  unfold mk_union at 1. rewrite flatten_pair, EN.
+  destruct T' as [|a [|b r]].
+  - cbn in HX. subst X. reflexivity.
+  - rewrite HX. rewrite (dedup_nodup _ _ Hn). reflexivity.
+  - unfold mk_union. rewrite HX, (dedup_nodup _ _ HnX).
+    assert (E: flatten [Union X] = X) by (unfold flatten; cbn; apply app_nil_r).
+    rewrite E, (dedup_nodup _ _ Hn). reflexivity.
+Qed.
+
 Lemma norm_union_multi : forall env c pairs,
   (forall p, In p (u_ks c pairs) -> member_ok2 env c p) ->
   2 <= length (u_nl c pairs ++ u_ls c pairs) ->
@@ -1410,11 +1428,6 @@ Proof.
     rewrite <- El in *. apply join_types_lits; [exact Hls | exact Hndl |]. rewrite El. discriminate. }
   destruct (existsb (u_none c) nl) eqn:EN.
   - (* a None member *)
-    assert (Hinner: forall T', nodup_by ty_eqb (flatten T') = true ->
-              flatten [match T' with [x] => x | l => mk_union l end] = flatten T').
-    { intros T' Hn'. destruct T' as [|a [|b r]]; [| reflexivity |].
-      - reflexivity.
-      - unfold mk_union. rewrite (dedup_nodup _ _ Hn'). unfold flatten at 1. cbn. rewrite app_nil_r. reflexivity. }
     assert (HF0: flatten (map snd nl' ++ match ls with [] => [] | _ :: _ => [join_types (map snd ls)] end) = map snd nl' ++ map snd ls).
     { rewrite Hlg, (Hfl nl' Hnl'). reflexivity. }
     assert (Hn0: nodup_by ty_eqb (map snd nl' ++ map snd ls) = true).
@@ -1422,14 +1435,9 @@ Proof.
     assert (Hres: mk_union [match map snd nl' ++ match ls with [] => [] | _ :: _ => [join_types (map snd ls)] end with
                              | [x] => x | l => mk_union l end; Named (NP id_NoneType)]
                   = Union (map snd nl' ++ map snd ls ++ [Named (NP id_NoneType)])).
-    { set (T' := map snd nl' ++ match ls with [] => [] | _ :: _ => [join_types (map snd ls)] end) in *.
-      set (inner := match T' with [x] => x | l => mk_union l end).
-      assert (Hi: flatten [inner] = map snd nl' ++ map snd ls).
-      { unfold inner. rewrite Hinner by (rewrite HF0; exact Hn0). exact HF0. }
-      unfold mk_union at 1.
-      assert (E: flatten [inner; Named (NP id_NoneType)] = flatten [inner] ++ [Named (NP id_NoneType)])
-        by (apply (flatten_app [inner] [Named (NP id_NoneType)])).
-      rewrite E, Hi. rewrite <- app_assoc. rewrite (dedup_nodup _ _ Hnd). reflexivity. }
+    { rewrite (mk_union_inner _ (map snd nl' ++ map snd ls) (Named (NP id_NoneType)) HF0 eq_refl).
+      - rewrite <- app_assoc. reflexivity.
+      - rewrite <- app_assoc. exact Hnd. }
     destruct (map snd nl ++ match ls with [] => [] | _ :: _ => [join_types (map snd ls)] end) as [|a [|b r]] eqn:ET.
     + apply app_eq_nil in ET. destruct ET as [E1 _]. apply map_eq_nil in E1. rewrite E1 in EN. discriminate.
     + (* a single printed item that is None: impossible with two members *)
@@ -1449,11 +1457,1524 @@ Proof.
     + apply app_eq_nil in ET. destruct ET as [E1 E2]. apply map_eq_nil in E1. rewrite E1 in Hlen.
       destruct ls; [cbn in Hlen; lia|discriminate].
     + destruct nl as [|p [|p2 pr]]; cbn in ET.
-      * destruct ls as [|q qs] eqn:El; [discriminate|]. injection ET as <-.
-        rewrite <- El in *. cbn [map app].
-        destruct (join_types_lits (map snd ls) Hls Hndl ltac:(rewrite El; discriminate)) as [_ ->].
-        rewrite El in *. destruct qs; [cbn in Hlen; lia|reflexivity].
+      * cbn [map app] in *.
+        pose proof (join_types_lits (map snd ls) Hls Hndl) as HJ.
+        destruct ls as [|q qs]; [discriminate|].
+        destruct (HJ ltac:(discriminate)) as [_ HJ2]. injection ET as <-. cbn [map] in *. rewrite HJ2.
+        destruct qs; [cbn in Hlen; lia|reflexivity].
       * destruct ls; [cbn in Hlen; lia|discriminate].
       * destruct pr; discriminate.
-    + unfold mk_union. rewrite <- ET at 1. rewrite HF. rewrite (dedup_nodup _ _ Hnd). reflexivity.
+    + unfold mk_union. rewrite HF. rewrite (dedup_nodup _ _ Hnd). reflexivity.
+Qed.
+
+(* ---- _FormSetTypeList is the identity on a selection it has already made ---- *)
+
+Definition pair_free (L : list (list token)) (p : N * N) : Prop :=
+  mem_s [TName (fst p)] L && mem_s [TName (snd p)] L = false.
+
+Lemma mem_s_In : forall s L, mem_s s L = true <-> In s L.
+Proof.
+  intros. unfold mem_s. rewrite existsb_exists. split.
+  - intros (x & Hx & E). apply tokens_eqb_true in E. subst. exact Hx.
+  - intros H. exists s. split; [exact H|apply tokens_eqb_refl].
+Qed.
+
+Lemma compat_step_sub : forall L q s, In s (compat_step L q) -> In s L.
+Proof.
+  intros L q s. unfold compat_step. destruct (_ && _); [|exact (fun H => H)].
+  intros H. apply filter_In in H. apply H.
+Qed.
+
+Lemma fold_compat_sub : forall items L s, In s (fold_left compat_step items L) -> In s L.
+Proof.
+  induction items as [|q r IH]; cbn; intros L s H; [exact H|]. apply IH in H. eapply compat_step_sub. exact H.
+Qed.
+
+Lemma pair_free_sub : forall L L' p, (forall s, In s L' -> In s L) -> pair_free L p -> pair_free L' p.
+Proof.
+  intros L L' p Hsub H. unfold pair_free in *.
+  destruct (mem_s [TName (fst p)] L') eqn:E1; [|reflexivity].
+  destruct (mem_s [TName (snd p)] L') eqn:E2; [|reflexivity].
+  apply mem_s_In in E1. apply mem_s_In in E2. apply Hsub in E1. apply Hsub in E2.
+  apply mem_s_In in E1. apply mem_s_In in E2. rewrite E1, E2 in H. discriminate.
+Qed.
+
+Lemma compat_step_establish : forall L q, pair_free (compat_step L q) q.
+Proof.
+  intros L q. unfold compat_step, pair_free.
+  destruct (mem_s [TName (fst q)] L && mem_s [TName (snd q)] L) eqn:E; [|exact E].
+  assert (Hf: mem_s [TName (fst q)] (filter (fun s => negb (tokens_eqb s [TName (fst q)])) L) = false).
+  { destruct (mem_s [TName (fst q)] (filter (fun s => negb (tokens_eqb s [TName (fst q)])) L)) eqn:E1; [|reflexivity].
+    apply mem_s_In in E1. apply filter_In in E1.
+    destruct E1 as [_ E1]. rewrite tokens_eqb_refl in E1. discriminate. }
+  rewrite Hf. reflexivity.
+Qed.
+
+Lemma fold_compat_establish : forall items L p, In p items -> pair_free (fold_left compat_step items L) p.
+Proof.
+  induction items as [|q r IH]; intros L p Hp; [contradiction|]. cbn.
+  destruct Hp as [->|Hp]; [|apply IH; exact Hp].
+  eapply pair_free_sub; [|apply compat_step_establish]. intros s Hs. eapply fold_compat_sub. exact Hs.
+Qed.
+
+Lemma fold_compat_free : forall items L, (forall p, In p items -> pair_free L p) -> fold_left compat_step items L = L.
+Proof.
+  induction items as [|q r IH]; intros L H; [reflexivity|]. cbn.
+  assert (E: compat_step L q = L).
+  { unfold compat_step. specialize (H q (or_introl eq_refl)). unfold pair_free in H. rewrite H. reflexivity. }
+  rewrite E. apply IH. intros p Hp. apply H. right. exact Hp.
+Qed.
+
+Lemma dedup_NoDup_tok : forall l, NoDup l -> dedup tokens_eqb l = l.
+Proof.
+  induction l as [|x r IH]; intros H; [reflexivity|]. inversion H as [|? ? Hx Hr]; subst. cbn.
+  rewrite (IH Hr). f_equal. clear -Hx. induction r as [|y s IHs]; [reflexivity|]. cbn.
+  assert (tokens_eqb x y = false) as -> by (apply tokens_eqb_false; intro E; apply Hx; left; symmetry; exact E).
+  cbn. f_equal. apply IHs. intro Hin. apply Hx. right. exact Hin.
+Qed.
+
+Lemma form_set_fix : forall c L',
+  NoDup L' -> (in_param c = true -> forall p, In p compat_items -> pair_free L' p) -> form_set c L' = L'.
+Proof.
+  intros c L' Hn Hp. unfold form_set. rewrite (dedup_NoDup_tok _ Hn).
+  destruct (in_param c); [|reflexivity]. apply fold_compat_free. apply Hp. reflexivity.
+Qed.
+
+Lemma form_set_pair_free : forall c L, in_param c = true -> forall p, In p compat_items -> pair_free (form_set c L) p.
+Proof.
+  intros c L Hc p Hp. unfold form_set. rewrite Hc. apply fold_compat_establish. exact Hp.
+Qed.
+
+Lemma NoDup_app_intro : forall {A} (l1 l2 : list A),
+  NoDup l1 -> NoDup l2 -> (forall x, In x l1 -> ~ In x l2) -> NoDup (l1 ++ l2).
+Proof.
+  induction l1 as [|x r IH]; intros l2 H1 H2 Hd; [exact H2|]. cbn.
+  inversion H1 as [|? ? Hx Hr]; subst. constructor.
+  - intro Hin. apply in_app_or in Hin. destruct Hin as [Hin|Hin]; [exact (Hx Hin)|].
+    exact (Hd x (or_introl eq_refl) Hin).
+  - apply IH; [exact Hr | exact H2 |]. intros y Hy. apply Hd. right. exact Hy.
+Qed.
+
+Lemma filter_all : forall {A} (P : A -> bool) l, (forall x, In x l -> P x = true) -> filter P l = l.
+Proof.
+  induction l as [|x r IH]; intros H; [reflexivity|]. cbn. rewrite (H x (or_introl eq_refl)). f_equal.
+  apply IH. intros y Hy. apply H. right. exact Hy.
+Qed.
+Lemma filter_none : forall {A} (P : A -> bool) l, (forall x, In x l -> P x = false) -> filter P l = [].
+Proof.
+  induction l as [|x r IH]; intros H; [reflexivity|]. cbn. rewrite (H x (or_introl eq_refl)).
+  apply IH. intros y Hy. apply H. right. exact Hy.
+Qed.
+
+Lemma filter_partition_length : forall {A} (P : A -> bool) l,
+  length (filter (fun x => negb (P x)) l ++ filter P l) = length l.
+Proof.
+  intros A P l. rewrite app_length. induction l as [|x r IH]; [reflexivity|]. cbn.
+  destruct (P x); cbn; lia.
+Qed.
+
+Lemma K_flat : forall env c p, member_ok env c p -> u_key c p = flat (fe c p).
+Proof. intros env c p (Hw & _). unfold u_key, fe. apply (print_to_expr env c _ Hw). Qed.
+
+Lemma wfe_fe : forall env c p, member_ok env c p -> wfe (fe c p) = true.
+Proof. intros env c p (Hw & _). unfold fe. apply (print_to_expr env c _ Hw). Qed.
+
+Lemma map_K_flat : forall env c X, (forall p, In p X -> member_ok env c p) ->
+  map (u_key c) X = map flat (map (fe c) X) /\ forallb wfe (map (fe c) X) = true.
+Proof.
+  intros env c X H. split.
+  - rewrite map_map. apply map_ext_in. intros p Hp. apply (K_flat env). apply H. exact Hp.
+  - rewrite forallb_forall. intros e He. apply in_map_iff in He. destruct He as (p & <- & Hp).
+    apply (wfe_fe env). apply H. exact Hp.
+Qed.
+
+Lemma lit_key_not_name : forall env c p, member_ok env c p -> u_lit p = true ->
+  (forall i, u_key c p <> [TName i]) /\ u_key c p <> [TNone].
+Proof.
+  intros env c p (_ & _ & _ & Hv) Hl. destruct (Hv Hl) as (v & E & _). unfold u_key. rewrite E.
+  cbn. split; [intros i|]; discriminate.
+Qed.
+
+(* the union printed from the re-read members is the union printed from the original members *)
+Lemma print_union_F : forall env c pairs,
+  (forall p, In p (u_ks c pairs) -> member_ok2 env c p) ->
+  2 <= length (u_nl c pairs ++ u_ls c pairs) ->
+  print_ty c (Union (union_F c pairs)) = build_union (map (u_key c) (u_ks c pairs)).
+Proof.
+  intros env c pairs Hks Hlen.
+  set (ks := u_ks c pairs) in *. set (nl := u_nl c pairs) in *. set (ls := u_ls c pairs) in *.
+  set (nl' := u_nl' c pairs) in *.
+  assert (Hks1: forall p, In p ks -> member_ok env c p) by (intros p Hp; apply (Hks p Hp)).
+  assert (Inl: forall p, In p nl -> In p ks /\ u_lit p = false).
+  { intros p Hp. unfold nl, u_nl in Hp. apply filter_In in Hp. destruct Hp as [H1 H2]. apply negb_true_iff in H2. split; assumption. }
+  assert (Ils: forall p, In p ls -> In p ks /\ u_lit p = true).
+  { intros p Hp. unfold ls, u_ls in Hp. apply filter_In in Hp. exact Hp. }
+  assert (Inl': forall p, In p nl' -> In p nl /\ u_none c p = false).
+  { intros p Hp. unfold nl', u_nl' in Hp. apply filter_In in Hp. destruct Hp as [H1 H2]. apply negb_true_iff in H2. split; assumption. }
+  assert (HndK: NoDup (map (u_key c) ks)) by apply NoDup_form_set_on.
+  assert (HndNl: NoDup (map (u_key c) nl)) by (apply NoDup_map_filter; exact HndK).
+  assert (HndLs: NoDup (map (u_key c) ls)) by (apply NoDup_map_filter; exact HndK).
+  assert (HndNl': NoDup (map (u_key c) nl')) by (apply NoDup_map_filter; exact HndNl).
+  (* the members that are printed the second time *)
+  set (M := nl' ++ ls ++ (if existsb (u_none c) nl then firstn 1 (filter (u_none c) nl) else [])).
+  assert (HMin: forall p, In p M -> In p ks).
+  { intros p Hp. unfold M in Hp. apply in_app_or in Hp. destruct Hp as [Hp|Hp]; [apply Inl; apply Inl'; exact Hp|].
+    apply in_app_or in Hp. destruct Hp as [Hp|Hp]; [apply Ils; exact Hp|].
+    destruct (existsb (u_none c) nl); [|contradiction]. apply Inl.
+    destruct (filter (u_none c) nl) as [|z zs] eqn:Ef; [contradiction|]. cbn in Hp. destruct Hp as [<-|[]].
+    assert (Hz: In z (filter (u_none c) nl)) by (rewrite Ef; left; reflexivity). apply filter_In in Hz. apply Hz. }
+  assert (HM1: forall p, In p M -> member_ok env c p) by (intros p Hp; apply Hks1; apply HMin; exact Hp).
+  (* step 1: the printed members of Union F are the keys of M *)
+  assert (E1: map (print_ty c) (union_F c pairs) = map (u_key c) M).
+  { unfold union_F, M. fold nl' ls nl. rewrite !map_app. f_equal; [|f_equal].
+    - rewrite map_map. apply map_ext_in. intros p Hp. apply (Hks p). apply Inl. apply Inl'. exact Hp.
+    - rewrite map_map. apply map_ext_in. intros p Hp. apply (Hks p). apply Ils. exact Hp.
+    - destruct (existsb (u_none c) nl) eqn:EN; [|reflexivity].
+      apply existsb_exists in EN. destruct EN as (z & Hz & Ez).
+      destruct (filter (u_none c) nl) as [|z0 zs] eqn:Ef.
+      + assert (In z (filter (u_none c) nl)) by (apply filter_In; split; assumption). rewrite Ef in H. contradiction.
+      + cbn. f_equal. assert (Hz0: In z0 (filter (u_none c) nl)) by (rewrite Ef; left; reflexivity).
+        apply filter_In in Hz0. destruct Hz0 as [_ Hz0]. unfold u_none, is_none_s in Hz0. apply tokens_eqb_true in Hz0.
+        symmetry. exact Hz0. }
+  cbn [print_ty]. rewrite E1.
+  (* step 2: _FormSetTypeList changes nothing *)
+  assert (HndM: NoDup (map (u_key c) M)).
+  { unfold M. rewrite !map_app. apply NoDup_app_intro; [exact HndNl' | apply NoDup_app_intro |].
+    - exact HndLs.
+    - destruct (existsb (u_none c) nl); [|constructor].
+      destruct (filter (u_none c) nl); cbn; [constructor|]. constructor; [exact (fun f => f)|constructor].
+    - intros k Hk1 Hk2. apply in_map_iff in Hk1. destruct Hk1 as (p & <- & Hp).
+      destruct (lit_key_not_name env c p (Hks1 p (proj1 (Ils p Hp))) (proj2 (Ils p Hp))) as [_ Hnn].
+      destruct (existsb (u_none c) nl); [|contradiction].
+      destruct (filter (u_none c) nl) as [|z zs] eqn:Ef; [contradiction|]. cbn in Hk2. destruct Hk2 as [Hk2|[]].
+      assert (Hz: In z (filter (u_none c) nl)) by (rewrite Ef; left; reflexivity). apply filter_In in Hz.
+      destruct Hz as [_ Hz]. unfold u_none, is_none_s in Hz. apply tokens_eqb_true in Hz. congruence.
+    - intros k Hk1 Hk2. apply in_map_iff in Hk1. destruct Hk1 as (p & <- & Hp).
+      apply in_app_or in Hk2. destruct Hk2 as [Hk2|Hk2].
+      + apply in_map_iff in Hk2. destruct Hk2 as (q & Eq & Hq).
+        (* a non-literal and a literal member with the same key: the key decides literal-ness *)
+        destruct (Inl _ (proj1 (Inl' _ Hp))) as [Hpk Hpl]. destruct (Ils _ Hq) as [Hqk Hql].
+        destruct (Hks1 p Hpk) as (Hwp & Hup & _). destruct (Hks1 q Hqk) as (Hwq & Huq & _ & Hvq).
+        destruct (Hvq Hql) as (v & Ev & _).
+        pose proof (K_flat env c p (Hks1 p Hpk)) as Kp. pose proof (K_flat env c q (Hks1 q Hqk)) as Kq.
+        assert (Ef: flat (fe c p) = flat (fe c q)) by congruence.
+        apply flat_inj in Ef; [| apply (wfe_fe env); apply Hks1; assumption | apply (wfe_fe env); apply Hks1; assumption].
+        pose proof (is_litsub_to_expr env c _ Hwp Hup) as L1. pose proof (is_litsub_to_expr env c _ Hwq Huq) as L2.
+        unfold fe in Ef. rewrite Ef in L1. unfold u_lit in *. congruence.
+      + destruct (existsb (u_none c) nl); [|contradiction].
+        destruct (filter (u_none c) nl) as [|z zs] eqn:Ef; [contradiction|]. cbn in Hk2. destruct Hk2 as [Hk2|[]].
+        assert (Hz: In z (filter (u_none c) nl)) by (rewrite Ef; left; reflexivity). apply filter_In in Hz.
+        destruct Hz as [_ Hz]. destruct (Inl' _ Hp) as [_ Hpn]. unfold u_none in *. congruence. }
+  rewrite form_set_fix; [| exact HndM |].
+  2:{ intros Hc q Hq. eapply pair_free_sub; [| apply (form_set_pair_free c (map (u_key c) pairs) Hc q Hq)].
+      intros s Hs. rewrite <- map_form_set_on. fold (u_ks c pairs). fold ks.
+      apply in_map_iff in Hs. destruct Hs as (p & <- & Hp). apply in_map. apply HMin. exact Hp. }
+  (* step 3: both sides through expressions *)
+  destruct (map_K_flat env c M HM1) as [EM WM]. destruct (map_K_flat env c ks Hks1) as [EK WK].
+  rewrite EM, EK. rewrite !build_union_flat by assumption. f_equal.
+  unfold union_e. rewrite (coalesce_e_members env c M HM1), (coalesce_e_members env c ks Hks1).
+  change (filter (fun p => negb (u_lit p)) ks) with nl. change (filter u_lit ks) with ls.
+  (* the selections made on M *)
+  assert (FlsM: filter u_lit M = ls).
+  { unfold M. rewrite !filter_app.
+    rewrite (filter_none u_lit nl') by (intros p Hp; apply Inl; apply Inl'; exact Hp).
+    rewrite (filter_all u_lit ls) by (intros p Hp; apply Ils; exact Hp).
+    destruct (existsb (u_none c) nl); [|apply app_nil_r].
+    destruct (filter (u_none c) nl) as [|z zs] eqn:Ef; [apply app_nil_r|]. cbn.
+    assert (Hz: In z (filter (u_none c) nl)) by (rewrite Ef; left; reflexivity). apply filter_In in Hz.
+    destruct (Inl z (proj1 Hz)) as [_ Hzl]. rewrite Hzl. apply app_nil_r. }
+  assert (FnlM: filter (fun p => negb (u_lit p)) M =
+                nl' ++ (if existsb (u_none c) nl then firstn 1 (filter (u_none c) nl) else [])).
+  { unfold M. rewrite !filter_app.
+    rewrite (filter_all (fun p => negb (u_lit p)) nl') by (intros p Hp; destruct (Inl p (proj1 (Inl' p Hp))) as [_ ->]; reflexivity).
+    rewrite (filter_none (fun p => negb (u_lit p)) ls) by (intros p Hp; destruct (Ils p Hp) as [_ ->]; reflexivity).
+    cbn [app]. f_equal.
+    destruct (existsb (u_none c) nl); [|reflexivity].
+    destruct (filter (u_none c) nl) as [|z zs] eqn:Ef; [reflexivity|]. cbn.
+    assert (Hz: In z (filter (u_none c) nl)) by (rewrite Ef; left; reflexivity). apply filter_In in Hz.
+    destruct (Inl z (proj1 Hz)) as [_ Hzl]. rewrite Hzl. reflexivity. }
+  rewrite FlsM, FnlM.
+  destruct (existsb (u_none c) nl) eqn:EN.
+  - (* None is printed last the second time: only the Optional wrapper sees it *)
+    destruct (filter (u_none c) nl) as [|z zs] eqn:Ef.
+    { apply existsb_exists in EN. destruct EN as (z & Hz & Ez).
+      assert (In z (filter (u_none c) nl)) by (apply filter_In; split; assumption). rewrite Ef in H. contradiction. }
+    cbn [firstn].
+    assert (Hz: In z nl /\ u_none c z = true).
+    { assert (Hz: In z (filter (u_none c) nl)) by (rewrite Ef; left; reflexivity). apply filter_In in Hz. exact Hz. }
+    assert (Hnl1: forall p, In p nl -> member_ok env c p) by (intros p Hp; apply Hks1; apply Inl; exact Hp).
+    assert (Hnlz1: forall p, In p (nl' ++ [z]) -> member_ok env c p).
+    { intros p Hp. apply in_app_or in Hp. destruct Hp as [Hp|[<-|[]]]; apply Hnl1; [apply Inl'; exact Hp|apply Hz]. }
+    assert (L1: 2 <= length (map (fe c) nl ++ lge ls)).
+    { rewrite app_length, map_length. rewrite app_length in Hlen.
+      destruct ls as [|q qs]; cbn in *; [|destruct nl; [destruct Hz as [[] _]|cbn; lia]]. lia. }
+    assert (L2: 2 <= length (map (fe c) (nl' ++ [z]) ++ lge ls)).
+    { rewrite app_length, map_length, app_length. cbn [length].
+      destruct ls as [|q qs]; [|cbn; lia]. cbn. 
+      destruct nl' as [|a r] eqn:En'; [|cbn; lia]. exfalso.
+      (* every member prints None: at most one of them *)
+      assert (Hall: forall x, In x nl -> u_key c x = [TNone]).
+      { intros x Hx. destruct (u_none c x) eqn:Ex; [unfold u_none, is_none_s in Ex; apply tokens_eqb_true in Ex; exact Ex|].
+        assert (In x nl') by (unfold nl', u_nl'; fold nl; apply filter_In; split; [exact Hx|rewrite Ex; reflexivity]).
+        rewrite En' in H. contradiction. }
+      pose proof (NoDup_same_key (u_key c) [TNone] nl HndNl Hall) as Hle.
+      rewrite app_length in Hlen. cbn in Hlen. lia. }
+    pose proof (existsb_enone_items env c nl ls Hnl1) as HE1.
+    pose proof (existsb_enone_items env c (nl' ++ [z]) ls Hnlz1) as HE2.
+    pose proof (filter_enone_items env c nl ls Hnl1) as HF1.
+    pose proof (filter_enone_items env c (nl' ++ [z]) ls Hnlz1) as HF2.
+    rewrite EN in HE1.
+    assert (HE2': existsb (u_none c) (nl' ++ [z]) = true).
+    { rewrite existsb_app. cbn [existsb]. rewrite (proj2 Hz). rewrite orb_true_r. reflexivity. }
+    rewrite HE2' in HE2.
+    fold nl' in HF1.
+    assert (HF2': filter (fun p => negb (u_none c p)) (nl' ++ [z]) = nl').
+    { rewrite filter_app. cbn [filter]. rewrite (proj2 Hz). cbn [negb]. rewrite app_nil_r.
+      apply filter_all. intros p Hp. destruct (Inl' p Hp) as [_ ->]. reflexivity. }
+    rewrite HF2' in HF2.
+    destruct (map (fe c) nl ++ lge ls) as [|a1 [|b1 r1]]; [cbn in L1; lia | cbn in L1; lia |].
+    destruct (map (fe c) (nl' ++ [z]) ++ lge ls) as [|a2 [|b2 r2]]; [cbn in L2; lia | cbn in L2; lia |].
+    cbv beta iota zeta. rewrite HE1, HE2, HF1, HF2. reflexivity.
+  - assert (Enl: nl' = nl).
+    { unfold nl', u_nl'. fold nl. clear -EN. induction nl as [|p r IH]; [reflexivity|]. cbn in *.
+      apply orb_false_iff in EN. destruct EN as [E1 E2]. rewrite E1. cbn. f_equal. apply IH. exact E2. }
+    rewrite Enl, app_nil_r. reflexivity.
+Qed.
+
+Lemma norm_not_union : forall c t, is_union t = false -> is_union (norm c t) = false.
+Proof.
+  intros c t H. destruct t; cbn [norm]; try reflexivity; try discriminate.
+  - destruct (tokens_eqb _ _); [reflexivity|]. destruct (name_eqb _ _); reflexivity.
+  - destruct (removelast (map (norm c) ps)) as [|a l]; [reflexivity|]. destruct a; try reflexivity. destruct l; reflexivity.
+Qed.
+
+Lemma pairs_member_ok : forall env c ts,
+  forallb (wf env) ts = true -> forallb (fun t => negb (is_union t)) ts = true ->
+  forall p, In p (map (fun t => (t, norm c t)) ts) -> member_ok env c p.
+Proof.
+  intros env c ts Hts Hflat p Hp. apply in_map_iff in Hp. destruct Hp as (t & <- & Ht). cbn [fst snd].
+  rewrite forallb_forall in Hts, Hflat. specialize (Hflat t Ht). apply negb_true_iff in Hflat.
+  unfold member_ok, fe. cbn [fst snd].
+  repeat split; [apply Hts; exact Ht | exact Hflat | apply conv_to_expr; apply Hts; exact Ht |].
+  intros Hl. destruct t; try discriminate. exists v. split; reflexivity.
+Qed.
+
+Theorem print_norm_lemma : forall env c t, wf env t = true -> stable c t = true ->
+  print_ty c (norm c t) = print_ty c t.
+Proof.
+  intros env c. induction t using ty_ind'; intros Hwf Hst.
+  - cbn. unfold print_name. destruct n; reflexivity.
+  - reflexivity.
+  - reflexivity.
+  - reflexivity.
+  - cbn. destruct v; reflexivity.
+  - (* Generic *)
+    cbn [wf] in Hwf. apply andb_true_iff in Hwf. destruct Hwf as [Hwf Hshape].
+    apply andb_true_iff in Hwf. destruct Hwf as [Hwf Hps].
+    apply andb_true_iff in Hwf. destruct Hwf as [Hwf Hnn]. apply negb_true_iff in Hnn.
+    cbn [stable] in Hst.
+    assert (IH: forall x, In x ps -> print_ty c (norm c x) = print_ty c x).
+    { intros x Hx. rewrite Forall_forall in H. rewrite forallb_forall in Hps, Hst. apply H; auto. }
+    assert (Hmap: map (print_ty c) (map (norm c) ps) = map (print_ty c) ps).
+    { rewrite map_map. apply map_ext_in. exact IH. }
+    cbn [norm]. fold (prints_tuple b). destruct (prints_tuple b) eqn:Et.
+    + cbn [print_ty]. fold (prints_tuple b). rewrite Et. rewrite Hmap.
+      unfold prints_tuple in Et. apply tokens_eqb_true in Et. rewrite Et. reflexivity.
+    + destruct (name_eqb b (NT id_Callable)) eqn:Ec.
+      * cbn [print_ty]. fold (prints_tuple b). rewrite Et, Ec. f_equal. f_equal.
+        change (print_ty c AnyT :: map (print_ty c) (tl (map (norm c) ps))) with (map (print_ty c) (AnyT :: tl (map (norm c) ps))).
+        cbn [map tl]. rewrite <- !map_tl'. rewrite map_map. apply map_ext_in. intros x Hx. apply IH.
+        destruct ps; [contradiction|right; exact Hx].
+      * cbn [print_ty].
+        assert (Ep: print_name (norm_name b) = print_name b) by (destruct b; reflexivity).
+        assert (Et': tokens_eqb (print_name (norm_name b)) [TName id_tuple] = false) by (rewrite Ep; exact Et).
+        assert (Ec': name_eqb (norm_name b) (NT id_Callable) = false) by (destruct b; cbn in *; congruence).
+        fold (prints_tuple b). rewrite Et, Ec, Et', Ec', Ep, Hmap. reflexivity.
+  - (* TupleT *)
+    cbn [wf] in Hwf. apply andb_true_iff in Hwf. destruct Hwf as [Hwf Hps].
+    apply andb_true_iff in Hwf. destruct Hwf as [Hwf Hwn]. cbn [stable] in Hst.
+    assert (IH: forall x, In x ps -> print_ty c (norm c x) = print_ty c x).
+    { intros x Hx. rewrite Forall_forall in H. rewrite forallb_forall in Hps, Hst. apply H; auto. }
+    assert (Hmap: map (print_ty c) (map (norm c) ps) = map (print_ty c) ps).
+    { rewrite map_map. apply map_ext_in. exact IH. }
+    pose proof (prints_tuple_id b Hwf) as Hid.
+    assert (Hpn: print_name b = [TName id_tuple]) by (unfold prints_tuple in Hwf; apply tokens_eqb_true in Hwf; exact Hwf).
+    assert (Hc: name_eqb b (NT id_Callable) = false).
+    { destruct (name_eqb b (NT id_Callable)) eqn:E; [|reflexivity]. apply name_eqb_eq in E. subst b. discriminate. }
+    cbn [norm print_ty]. rewrite Hpn, Hc, Hmap. destruct ps; reflexivity.
+  - (* CallableT *)
+    cbn [wf] in Hwf. apply andb_true_iff in Hwf. destruct Hwf as [Hwf Hne].
+    apply andb_true_iff in Hwf. destruct Hwf as [Hwf Hps].
+    cbn [stable] in Hst. apply andb_true_iff in Hst. destruct Hst as [Hst Hno].
+    assert (IH: forall x, In x ps -> print_ty c (norm c x) = print_ty c x).
+    { intros x Hx. rewrite Forall_forall in H. rewrite forallb_forall in Hps, Hst. apply H; auto. }
+    assert (Hmap: map (print_ty c) (map (norm c) ps) = map (print_ty c) ps).
+    { rewrite map_map. apply map_ext_in. exact IH. }
+    cbn [norm].
+    destruct (removelast (map (norm c) ps)) as [|a l]; [cbn [print_ty]; rewrite Hmap; reflexivity|].
+    destruct a; try (cbn [print_ty]; rewrite Hmap; reflexivity).
+    destruct l; [discriminate|cbn [print_ty]; rewrite Hmap; reflexivity].
+  - (* Union *)
+    cbn [wf] in Hwf. apply andb_true_iff in Hwf. destruct Hwf as [Hwf Hne].
+    apply andb_true_iff in Hwf. destruct Hwf as [Hts Hflat].
+    cbn [stable] in Hst. apply andb_true_iff in Hst. destruct Hst as [Hst HndF].
+    cbn [norm print_ty].
+    set (pairs := map (fun t => (t, norm c t)) ts) in *.
+    pose proof (pairs_member_ok env c ts Hts Hflat) as Hp1. fold pairs in Hp1.
+    assert (Hp2: forall p, In p pairs -> member_ok2 env c p).
+    { intros p Hp. split; [apply Hp1; exact Hp|].
+      apply in_map_iff in Hp. destruct Hp as (t & <- & Ht). cbn [fst snd]. unfold u_key. cbn [fst].
+      rewrite Forall_forall in H. rewrite forallb_forall in Hts, Hst, Hflat. split.
+      - apply H; auto.
+      - apply norm_not_union. specialize (Hflat t Ht). apply negb_true_iff in Hflat. exact Hflat. }
+    assert (EK: map (print_ty c) ts = map (u_key c) pairs).
+    { unfold pairs. rewrite map_map. reflexivity. }
+    rewrite EK. rewrite <- map_form_set_on. fold (u_ks c pairs).
+    assert (Hks: forall p, In p (u_ks c pairs) -> member_ok2 env c p).
+    { intros p Hp. apply Hp2. eapply form_set_on_incl. exact Hp. }
+    assert (Hks1: forall p, In p (u_ks c pairs) -> member_ok env c p) by (intros p Hp; apply (Hks p Hp)).
+    assert (Hk: u_ks c pairs <> []).
+    { apply form_set_on_nonempty. unfold pairs. destruct ts; [discriminate|cbn; discriminate]. }
+    pose proof (filter_partition_length u_lit (u_ks c pairs)) as Hlen. fold (u_nl c pairs) (u_ls c pairs) in Hlen.
+    destruct (le_lt_dec 2 (length (u_nl c pairs ++ u_ls c pairs))) as [H2|H2].
+    + rewrite (norm_union_multi env c pairs Hks H2 HndF). apply (print_union_F env); assumption.
+    + assert (H1: length (u_nl c pairs ++ u_ls c pairs) = 1).
+      { destruct (u_ks c pairs); [congruence|]. cbn in Hlen. lia. }
+      destruct (u_nl c pairs ++ u_ls c pairs) as [|p [|q r]] eqn:E; cbn in H1; try lia.
+      assert (Hpin: In p (u_ks c pairs)).
+      { assert (In p (u_nl c pairs ++ u_ls c pairs)) by (rewrite E; left; reflexivity).
+        apply in_app_or in H0. destruct H0 as [H0|H0]; [unfold u_nl in H0|unfold u_ls in H0]; apply filter_In in H0; apply H0. }
+      rewrite (norm_union_single c pairs p E).
+      2:{ intros Hl. destruct (Hks1 p Hpin) as (_ & _ & _ & Hv). destruct (Hv Hl) as (v & _ & ->). reflexivity. }
+      destruct (Hks p Hpin) as (_ & -> & _).
+      destruct (map_K_flat env c _ Hks1) as [EKf WK]. rewrite EKf, (build_union_flat _ WK).
+      unfold union_e. rewrite (coalesce_e_members env c _ Hks1). fold (u_nl c pairs) (u_ls c pairs).
+      destruct (u_nl c pairs) as [|a [|b r]]; cbn in E.
+      * rewrite E. cbn [map app lge]. 
+        assert (Hl: u_lit p = true).
+        { assert (In p (u_ls c pairs)) by (rewrite E; left; reflexivity). unfold u_ls in H0. apply filter_In in H0. apply H0. }
+        destruct (Hks1 p Hpin) as (_ & _ & _ & Hv). destruct (Hv Hl) as (v & Ev & _).
+        unfold u_key, lit_group. cbn [map]. rewrite Ev. destruct v; reflexivity.
+      * injection E as -> E. rewrite E. cbn [map app lge]. apply (K_flat env). apply Hks1. exact Hpin.
+      * destruct r; discriminate.
+  - (* Annot *)
+    cbn [wf] in Hwf. apply andb_true_iff in Hwf. destruct Hwf as [Hwt Ha].
+    cbn [stable] in Hst. cbn [norm print_ty]. rewrite (IHt Hwt Hst). reflexivity.
+Qed.
+
+Theorem print_fixed_point_lemma : forall env c t, wf env t = true -> stable c t = true ->
+  exists t', parse_ty env (print_ty c t) = Some t' /\ print_ty c t' = print_ty c t.
+Proof.
+  intros env c t Hw Hs. exists (norm c t). split; [apply parse_print_lemma; exact Hw|].
+  apply (print_norm_lemma env); assumption.
+Qed.
+
+(* ------------------------------------------------------------------------------------------------ *)
+(* VerifyVisitor accepts what is read back *)
+
+Lemma dedup_incl : forall {A} (eqb : A -> A -> bool) l x, In x (dedup eqb l) -> In x l.
+Proof.
+  induction l as [|y r IH]; cbn; intros x H; [exact H|].
+  destruct H as [H|H]; [left; exact H|]. right. apply filter_In in H. apply IH. apply H.
+Qed.
+
+Lemma verify_flatten : forall l, forallb verify_ty l = true -> forallb verify_ty (flatten l) = true.
+Proof.
+  induction l as [|t r IH]; intros H; [reflexivity|]. cbn in H. apply andb_true_iff in H. destruct H as [Ht Hr].
+  unfold flatten in *. cbn [flat_map]. rewrite forallb_app, (IH Hr), andb_true_r.
+  destruct t; try (cbn [forallb]; rewrite Ht; reflexivity). exact Ht.
+Qed.
+
+Lemma verify_mk_union : forall l, forallb verify_ty l = true -> verify_ty (mk_union l) = true.
+Proof.
+  intros l H. unfold mk_union. cbn [verify_ty]. apply verify_flatten in H.
+  rewrite forallb_forall in *. intros x Hx. apply H. eapply dedup_incl. exact Hx.
+Qed.
+
+Lemma verify_join_types : forall l, forallb verify_ty l = true -> verify_ty (join_types l) = true.
+Proof.
+  intros l H. unfold join_types.
+  set (l2 := dedup ty_eqb (filter (fun t => negb (is_nothing t)) (flatten l))).
+  assert (H2: forallb verify_ty l2 = true).
+  { apply verify_flatten in H. rewrite forallb_forall in *. intros x Hx. apply H.
+    unfold l2 in Hx. apply dedup_incl in Hx. apply filter_In in Hx. apply Hx. }
+  destruct l2 as [|a [|b r]] eqn:E.
+  - reflexivity.
+  - cbn in H2. rewrite andb_true_r in H2. exact H2.
+  - destruct (existsb is_any (a :: b :: r)).
+    + destruct (existsb is_nonetype (a :: b :: r)); reflexivity.
+    + apply verify_mk_union. exact H2.
+Qed.
+
+Theorem verify_ok_lemma : forall env c t, wf env t = true -> verify_ty (norm c t) = true.
+Proof.
+  intros env c. induction t using ty_ind'; intros Hwf; try reflexivity.
+  - (* Generic *)
+    cbn [wf] in Hwf. apply andb_true_iff in Hwf. destruct Hwf as [Hwf Hshape].
+    apply andb_true_iff in Hwf. destruct Hwf as [Hwf Hps].
+    assert (Hv: forallb verify_ty (map (norm c) ps) = true).
+    { rewrite forallb_forall. intros x Hx. apply in_map_iff in Hx. destruct Hx as (t & <- & Ht).
+      rewrite Forall_forall in H. rewrite forallb_forall in Hps. apply H; auto. }
+    cbn [norm]. fold (prints_tuple b). destruct (prints_tuple b).
+    + apply Nat.eqb_eq in Hshape. destruct ps as [|p0 [|p1 pr]]; cbn in Hshape; try discriminate. exact Hv.
+    + destruct (name_eqb b (NT id_Callable)).
+      * cbn [verify_ty forallb]. cbn. destruct (map (norm c) ps) as [|a r]; [reflexivity|]. cbn in Hv.
+        apply andb_true_iff in Hv. apply Hv.
+      * cbn [verify_ty]. destruct ps as [|p0 pr]; [discriminate|]. exact Hv.
+  - (* TupleT *)
+    cbn [wf] in Hwf. apply andb_true_iff in Hwf. destruct Hwf as [Hwf Hps].
+    cbn [norm verify_ty]. rewrite forallb_forall. intros x Hx. apply in_map_iff in Hx. destruct Hx as (t & <- & Ht).
+    rewrite Forall_forall in H. rewrite forallb_forall in Hps. apply H; auto.
+  - (* CallableT *)
+    cbn [wf] in Hwf. apply andb_true_iff in Hwf. destruct Hwf as [Hwf Hne].
+    apply andb_true_iff in Hwf. destruct Hwf as [Hwf Hps].
+    assert (Hv: forallb verify_ty (map (norm c) ps) = true).
+    { rewrite forallb_forall. intros x Hx. apply in_map_iff in Hx. destruct Hx as (t & <- & Ht).
+      rewrite Forall_forall in H. rewrite forallb_forall in Hps. apply H; auto. }
+    assert (Hnz: map (norm c) ps <> []) by (destruct ps; [discriminate|discriminate]).
+    assert (Hlast: verify_ty (last (map (norm c) ps) AnyT) = true).
+    { rewrite forallb_forall in Hv. apply Hv. apply in_last. exact Hnz. }
+    assert (Hall: verify_ty (CallableT b (map (norm c) ps)) = true).
+    { cbn [verify_ty]. destruct (map (norm c) ps); [congruence|exact Hv]. }
+    cbn [norm].
+    destruct (removelast (map (norm c) ps)) as [|a l]; [exact Hall|].
+    destruct a; try exact Hall. destruct l; [|exact Hall]. cbn. rewrite Hlast. reflexivity.
+  - (* Union *)
+    cbn [wf] in Hwf. apply andb_true_iff in Hwf. destruct Hwf as [Hwf Hne].
+    apply andb_true_iff in Hwf. destruct Hwf as [Hts Hflat].
+    cbn [norm]. set (pairs := map (fun t => (t, norm c t)) ts).
+    assert (Hp: forall p, In p pairs -> verify_ty (snd p) = true).
+    { intros p Hp. apply in_map_iff in Hp. destruct Hp as (t & <- & Ht). cbn.
+      rewrite Forall_forall in H. rewrite forallb_forall in Hts. apply H; auto. }
+    assert (HX: forall X, (forall p, In p X -> In p (u_ks c pairs)) -> forallb verify_ty (map snd X) = true).
+    { intros X HX. rewrite forallb_forall. intros x Hx. apply in_map_iff in Hx. destruct Hx as (p & <- & Hpx).
+      apply Hp. eapply form_set_on_incl. apply HX. exact Hpx. }
+    assert (Hnl: forall p, In p (u_nl c pairs) -> In p (u_ks c pairs)) by (intros p Hq; unfold u_nl in Hq; apply filter_In in Hq; apply Hq).
+    assert (Hls: forall p, In p (u_ls c pairs) -> In p (u_ks c pairs)) by (intros p Hq; unfold u_ls in Hq; apply filter_In in Hq; apply Hq).
+    assert (Hnl': forall p, In p (u_nl' c pairs) -> In p (u_ks c pairs)) by (intros p Hq; unfold u_nl' in Hq; apply filter_In in Hq; apply Hnl; apply Hq).
+    assert (Hlg: forallb verify_ty (match u_ls c pairs with [] => [] | _ :: _ => [join_types (map snd (u_ls c pairs))] end) = true).
+    { pose proof (verify_join_types _ (HX _ Hls)) as HJ.
+      destruct (u_ls c pairs); [reflexivity|]. cbn [forallb]. rewrite HJ. reflexivity. }
+    assert (HT: forall X, (forall p, In p X -> In p (u_ks c pairs)) ->
+              forallb verify_ty (map snd X ++ match u_ls c pairs with [] => [] | _ :: _ => [join_types (map snd (u_ls c pairs))] end) = true).
+    { intros X HXin. rewrite forallb_app, (HX X HXin), Hlg. reflexivity. }
+    unfold norm_union.
+    pose proof (HT _ Hnl) as HT1. pose proof (HT _ Hnl') as HT2.
+    destruct (map snd (u_nl c pairs) ++ match u_ls c pairs with [] => [] | _ :: _ => [join_types (map snd (u_ls c pairs))] end) as [|a [|b r]] eqn:ET.
+    + reflexivity.
+    + cbn in HT1. rewrite andb_true_r in HT1. exact HT1.
+    + destruct (existsb (u_none c) (u_nl c pairs)).
+      * apply verify_mk_union. cbn [forallb]. change (verify_ty (Named (NP id_NoneType))) with true. cbn [andb]. rewrite andb_true_r.
+        destruct (map snd (u_nl' c pairs) ++ match u_ls c pairs with [] => [] | _ :: _ => [join_types (map snd (u_ls c pairs))] end) as [|a' [|b' r']] eqn:ET'.
+        -- reflexivity.
+        -- cbn in HT2. rewrite andb_true_r in HT2. exact HT2.
+        -- apply verify_mk_union. exact HT2.
+      * apply verify_mk_union. exact HT1.
+  - (* Annot *)
+    cbn [wf] in Hwf. apply andb_true_iff in Hwf. destruct Hwf as [Hwt Ha]. cbn. apply IHt. exact Hwt.
+Qed.
+
+(* ------------------------------------------------------------------------------------------------ *)
+(* the re-read type is structurally equal to the printed one *)
+
+Lemma lit_eqb_refl : forall v, lit_eqb v v = true.
+Proof.
+  destruct v; cbn; try apply N.eqb_refl; try apply Z.eqb_refl.
+  destruct is_const, b; reflexivity.
+Qed.
+
+Lemma list_eqb_map : forall {A B} (f : B -> B -> bool) (g h : A -> B) l,
+  (forall x, In x l -> f (g x) (h x) = true) -> list_eqb f (map g l) (map h l) = true.
+Proof.
+  induction l as [|x r IH]; intros H; [reflexivity|]. cbn. rewrite (H x (or_introl eq_refl)). cbn.
+  apply IH. intros y Hy. apply H. right. exact Hy.
+Qed.
+
+Lemma list_eqb_N_refl : forall a, list_eqb N.eqb a a = true.
+Proof. induction a; cbn; [reflexivity|]. rewrite N.eqb_refl. exact IHa. Qed.
+
+Lemma filter_length_le : forall {A} (P : A -> bool) l, length (filter P l) <= length l.
+Proof. induction l as [|x r IH]; cbn; [lia|]. destruct (P x); cbn; lia. Qed.
+
+Lemma filter_length_eq : forall {A} (P : A -> bool) l, length (filter P l) = length l -> filter P l = l.
+Proof.
+  induction l as [|x r IH]; cbn; intros H; [reflexivity|]. destruct (P x); cbn in *.
+  - f_equal. apply IH. lia.
+  - pose proof (filter_length_le P r). lia.
+Qed.
+
+Lemma dedup_on_length_le : forall {A K} (key : A -> K) eqb l, length (dedup_on key eqb l) <= length l.
+Proof.
+  induction l as [|x r IH]; cbn; [lia|].
+  pose proof (filter_length_le (fun y => negb (eqb (key x) (key y))) (dedup_on key eqb r)). lia.
+Qed.
+
+Lemma dedup_on_length_eq : forall {A K} (key : A -> K) eqb l,
+  length (dedup_on key eqb l) = length l -> dedup_on key eqb l = l.
+Proof.
+  induction l as [|x r IH]; cbn; intros H; [reflexivity|]. f_equal.
+  pose proof (filter_length_le (fun y => negb (eqb (key x) (key y))) (dedup_on key eqb r)) as H1.
+  pose proof (dedup_on_length_le key eqb r) as H2.
+  rewrite filter_length_eq by lia. apply IH. lia.
+Qed.
+
+Lemma compat_step_on_length_le : forall {A} (key : A -> list token) l p, length (compat_step_on key l p) <= length l.
+Proof. intros. unfold compat_step_on. destruct (_ && _); [apply filter_length_le|lia]. Qed.
+
+Lemma compat_step_on_length_eq : forall {A} (key : A -> list token) l p,
+  length (compat_step_on key l p) = length l -> compat_step_on key l p = l.
+Proof. intros A key l p. unfold compat_step_on. destruct (_ && _); [apply filter_length_eq|reflexivity]. Qed.
+
+Lemma fold_compat_on_length_le : forall {A} (key : A -> list token) items l,
+  length (fold_left (compat_step_on key) items l) <= length l.
+Proof.
+  induction items as [|p r IH]; cbn; intros l; [lia|].
+  pose proof (IH (compat_step_on key l p)). pose proof (compat_step_on_length_le key l p). lia.
+Qed.
+
+Lemma fold_compat_on_length_eq : forall {A} (key : A -> list token) items l,
+  length (fold_left (compat_step_on key) items l) = length l -> fold_left (compat_step_on key) items l = l.
+Proof.
+  induction items as [|p r IH]; cbn; intros l H; [reflexivity|].
+  pose proof (fold_compat_on_length_le key r (compat_step_on key l p)) as H1.
+  pose proof (compat_step_on_length_le key l p) as H2.
+  assert (E: compat_step_on key l p = l) by (apply compat_step_on_length_eq; lia).
+  rewrite E in *. apply IH. exact H.
+Qed.
+
+Lemma form_set_on_length_eq : forall {A} c (key : A -> list token) l,
+  length (form_set_on c key l) = length l -> form_set_on c key l = l.
+Proof.
+  intros A c key l. unfold form_set_on. destruct (in_param c).
+  - intros H. pose proof (fold_compat_on_length_le key compat_items (dedup_on key tokens_eqb l)) as H1.
+    pose proof (dedup_on_length_le key tokens_eqb l) as H2.
+    assert (E: dedup_on key tokens_eqb l = l) by (apply dedup_on_length_eq; lia).
+    rewrite E in *. apply fold_compat_on_length_eq. exact H.
+  - apply dedup_on_length_eq.
+Qed.
+
+Lemma prints_none_shape : forall env c t, wf env t = true -> is_union t = false ->
+  print_ty c t = [TNone] -> exists n, t = Named n /\ (name_id n =? id_NoneType)%N = true.
+Proof.
+  intros env c t Hw Hu Hp. destruct t; try discriminate.
+  - exists n. split; [reflexivity|]. cbn in Hp. unfold print_name in Hp. destruct (_ =? _)%N; [reflexivity|discriminate].
+  - cbn [print_ty] in Hp. cbn [wf] in Hw. apply andb_true_iff in Hw. destruct Hw as [Hw _].
+    apply andb_true_iff in Hw. destruct Hw as [Hw _]. apply andb_true_iff in Hw. destruct Hw as [_ Hnn].
+    apply negb_true_iff in Hnn. rewrite (print_name_base b Hnn) in Hp.
+    destruct (tokens_eqb _ _); [|destruct (name_eqb _ _)]; discriminate.
+  - cbn [print_ty] in Hp. cbn [wf] in Hw. apply andb_true_iff in Hw. destruct Hw as [Hw _].
+    apply andb_true_iff in Hw. destruct Hw as [Hw _]. unfold prints_tuple in Hw. apply tokens_eqb_true in Hw.
+    rewrite Hw in Hp. destruct ps; [|destruct (name_eqb _ _)]; discriminate.
+  - cbn [print_ty] in Hp. cbn [wf] in Hw. apply andb_true_iff in Hw. destruct Hw as [Hw _].
+    apply andb_true_iff in Hw. destruct Hw as [Hw _]. apply name_eqb_eq in Hw. subst. discriminate.
+Qed.
+
+Lemma norm_name_tuple : forall env b, wf_name env b = true -> prints_tuple b = true -> norm_name b = NP id_tuple.
+Proof.
+  intros env b Hw Hp. apply prints_tuple_id in Hp. destruct b as [i|i|i]; cbn in *; subst; try reflexivity.
+  discriminate.
+Qed.
+
+Theorem reparse_equal_lemma : forall env c t,
+  wf env t = true -> stable c t = true -> eq_stable c t = true ->
+  ty_eq (norm c t) (unqual t) = true.
+Proof.
+  intros env c. induction t using ty_ind'; intros Hwf Hst Heq.
+  - cbn. apply name_eqb_refl.
+  - reflexivity.
+  - reflexivity.
+  - cbn. apply N.eqb_refl.
+  - cbn. apply lit_eqb_refl.
+  - (* Generic *)
+    cbn [wf] in Hwf. apply andb_true_iff in Hwf. destruct Hwf as [Hwf Hshape].
+    apply andb_true_iff in Hwf. destruct Hwf as [Hwf Hps].
+    apply andb_true_iff in Hwf. destruct Hwf as [Hwf Hnn].
+    cbn [stable] in Hst. cbn [eq_stable] in Heq.
+    assert (IH: forall x, In x ps -> ty_eq (norm c x) (unqual x) = true).
+    { intros x Hx. rewrite Forall_forall in H. rewrite forallb_forall in Hps, Hst, Heq. apply H; auto. }
+    cbn [norm unqual]. fold (prints_tuple b). destruct (prints_tuple b) eqn:Et.
+    + cbn [ty_eq]. rewrite (norm_name_tuple env b Hwf Et). cbn [name_eqb]. rewrite N.eqb_refl. cbn [andb].
+      apply list_eqb_map. exact IH.
+    + destruct (name_eqb b (NT id_Callable)) eqn:Ec.
+      * apply name_eqb_eq in Ec. subst b.
+        destruct ps as [|p0 [|p1 [|p2 pr]]]; try discriminate; destruct p0; try discriminate.
+        cbn. rewrite (IH p1); [reflexivity|right; left; reflexivity].
+      * cbn [ty_eq]. rewrite name_eqb_refl. cbn [andb]. apply list_eqb_map. exact IH.
+  - (* TupleT *)
+    cbn [wf] in Hwf. apply andb_true_iff in Hwf. destruct Hwf as [Hwf Hps].
+    apply andb_true_iff in Hwf. destruct Hwf as [Hwf Hwn].
+    cbn [stable] in Hst. cbn [eq_stable] in Heq.
+    assert (IH: forall x, In x ps -> ty_eq (norm c x) (unqual x) = true).
+    { intros x Hx. rewrite Forall_forall in H. rewrite forallb_forall in Hps, Hst, Heq. apply H; auto. }
+    cbn [norm unqual ty_eq]. rewrite (norm_name_tuple env b Hwn Hwf). cbn [name_eqb]. rewrite N.eqb_refl. cbn [andb].
+    apply list_eqb_map. exact IH.
+  - (* CallableT *)
+    cbn [wf] in Hwf. apply andb_true_iff in Hwf. destruct Hwf as [Hwf Hne].
+    apply andb_true_iff in Hwf. destruct Hwf as [Hwf Hps].
+    cbn [stable] in Hst. apply andb_true_iff in Hst. destruct Hst as [Hst Hno]. cbn [eq_stable] in Heq.
+    assert (IH: forall x, In x ps -> ty_eq (norm c x) (unqual x) = true).
+    { intros x Hx. rewrite Forall_forall in H. rewrite forallb_forall in Hps, Hst, Heq. apply H; auto. }
+    apply name_eqb_eq in Hwf. subst b.
+    assert (Hall: ty_eq (CallableT (NT id_Callable) (map (norm c) ps)) (unqual (CallableT (NT id_Callable) ps)) = true).
+    { cbn [unqual ty_eq norm_name name_eqb]. rewrite N.eqb_refl. cbn [andb]. apply list_eqb_map. exact IH. }
+    cbn [norm].
+    destruct (removelast (map (norm c) ps)) as [|a l]; [exact Hall|].
+    destruct a; try exact Hall. destruct l; [discriminate|exact Hall].
+  - (* Union *)
+    cbn [wf] in Hwf. apply andb_true_iff in Hwf. destruct Hwf as [Hwf Hne].
+    apply andb_true_iff in Hwf. destruct Hwf as [Hts Hflat].
+    cbn [stable] in Hst. apply andb_true_iff in Hst. destruct Hst as [Hst HndF].
+    cbn [eq_stable] in Heq. apply andb_true_iff in Heq. destruct Heq as [Heq Hlen].
+    apply andb_true_iff in Heq. destruct Heq as [Heq H2]. apply Nat.leb_le in H2. apply Nat.eqb_eq in Hlen.
+    assert (IH: forall x, In x ts -> ty_eq (norm c x) (unqual x) = true).
+    { intros x Hx. rewrite Forall_forall in H. rewrite forallb_forall in Hts, Hst, Heq. apply H; auto. }
+    cbn [norm unqual].
+    set (g := fun t => (t, norm c t)). set (pairs := map g ts) in *.
+    pose proof (pairs_member_ok env c ts Hts Hflat) as Hp1. fold g pairs in Hp1.
+    assert (Hp2: forall p, In p pairs -> member_ok2 env c p).
+    { intros p Hp. split; [apply Hp1; exact Hp|].
+      apply in_map_iff in Hp. destruct Hp as (t & <- & Ht). cbn [fst snd g]. unfold u_key. cbn [fst].
+      rewrite forallb_forall in Hts, Hst, Hflat. split.
+      - apply (print_norm_lemma env); auto.
+      - apply norm_not_union. specialize (Hflat t Ht). apply negb_true_iff in Hflat. exact Hflat. }
+    (* nothing was dropped by the printer *)
+    assert (Eks: u_ks c pairs = pairs).
+    { unfold u_ks, pairs. rewrite form_set_on_map.
+      change (fun x => u_key c (g x)) with (print_ty c).
+      rewrite (form_set_on_length_eq c (print_ty c) ts Hlen). reflexivity. }
+    assert (Hks: forall p, In p (u_ks c pairs) -> member_ok2 env c p) by (rewrite Eks; exact Hp2).
+    pose proof (filter_partition_length u_lit (u_ks c pairs)) as Hl2. fold (u_nl c pairs) (u_ls c pairs) in Hl2.
+    rewrite Eks in Hl2. unfold pairs in Hl2 at 3. rewrite map_length in Hl2.
+    rewrite (norm_union_multi env c pairs Hks ltac:(lia) HndF).
+    cbn [ty_eq]. apply andb_true_iff. split.
+    + (* every re-read member is one of the printed members *)
+      rewrite forallb_forall. intros x Hx. apply existsb_exists.
+      unfold union_F in Hx. apply in_app_or in Hx. destruct Hx as [Hx|Hx]; [|apply in_app_or in Hx; destruct Hx as [Hx|Hx]].
+      * apply in_map_iff in Hx. destruct Hx as (p & <- & Hp). unfold u_nl', u_nl in Hp.
+        apply filter_In in Hp. destruct Hp as [Hp _]. apply filter_In in Hp. destruct Hp as [Hp _]. rewrite Eks in Hp.
+        apply in_map_iff in Hp. destruct Hp as (t & <- & Ht). exists (unqual t). split; [apply in_map; exact Ht|].
+        cbn [snd g]. apply IH. exact Ht.
+      * apply in_map_iff in Hx. destruct Hx as (p & <- & Hp). unfold u_ls in Hp.
+        apply filter_In in Hp. destruct Hp as [Hp _]. rewrite Eks in Hp.
+        apply in_map_iff in Hp. destruct Hp as (t & <- & Ht). exists (unqual t). split; [apply in_map; exact Ht|].
+        cbn [snd g]. apply IH. exact Ht.
+      * destruct (existsb (u_none c) (u_nl c pairs)) eqn:EN; [|contradiction]. destruct Hx as [<-|[]].
+        apply existsb_exists in EN. destruct EN as (p & Hp & Hn). unfold u_nl in Hp. apply filter_In in Hp. destruct Hp as [Hp _].
+        rewrite Eks in Hp. destruct (Hp1 p Hp) as (Hw & Hu & _).
+        unfold u_none, is_none_s in Hn. apply tokens_eqb_true in Hn. unfold u_key in Hn.
+        destruct (prints_none_shape env c _ Hw Hu Hn) as (n & En & Hid).
+        apply in_map_iff in Hp. destruct Hp as (t & <- & Ht). cbn [fst g] in *. subst t.
+        exists (unqual (Named n)). split; [apply in_map; exact Ht|].
+        cbn [unqual]. rewrite forallb_forall in Hts. specialize (Hts _ Ht). cbn [wf] in Hts.
+        rewrite (wf_name_none env n Hts Hid). reflexivity.
+    + (* every printed member is among the re-read ones *)
+      rewrite forallb_forall. intros y Hy. apply existsb_exists.
+      apply in_map_iff in Hy. destruct Hy as (t & <- & Ht).
+      assert (Hp: In (g t) (u_ks c pairs)) by (rewrite Eks; apply in_map; exact Ht).
+      destruct (u_lit (g t)) eqn:El.
+      * exists (norm c t). split; [|apply IH; exact Ht].
+        unfold union_F. apply in_or_app. right. apply in_or_app. left.
+        change (norm c t) with (snd (g t)). apply in_map. unfold u_ls. apply filter_In. split; assumption.
+      * destruct (u_none c (g t)) eqn:En.
+        -- exists (Named (NP id_NoneType)). split.
+           ++ unfold union_F. apply in_or_app. right. apply in_or_app. right.
+              assert (existsb (u_none c) (u_nl c pairs) = true) as ->; [|left; reflexivity].
+              apply existsb_exists. exists (g t). split; [|exact En]. unfold u_nl. apply filter_In. split; [exact Hp|rewrite El; reflexivity].
+           ++ rewrite forallb_forall in Hts, Hflat. pose proof (Hts t Ht) as Hw. pose proof (Hflat t Ht) as Hu. apply negb_true_iff in Hu.
+              unfold u_none, is_none_s, u_key in En. apply tokens_eqb_true in En. cbn [fst g] in En.
+              destruct (prints_none_shape env c t Hw Hu En) as (n & -> & Hid).
+              cbn [unqual]. cbn [wf] in Hw. rewrite (wf_name_none env n Hw Hid). reflexivity.
+        -- exists (norm c t). split; [|apply IH; exact Ht].
+           unfold union_F. apply in_or_app. left.
+           change (norm c t) with (snd (g t)). apply in_map. unfold u_nl', u_nl. apply filter_In. split.
+           ++ apply filter_In. split; [exact Hp|rewrite El; reflexivity].
+           ++ rewrite En. reflexivity.
+  - (* Annot *)
+    cbn [wf] in Hwf. apply andb_true_iff in Hwf. destruct Hwf as [Hwt Ha].
+    cbn [stable] in Hst. cbn [eq_stable] in Heq. cbn [norm unqual ty_eq].
+    rewrite (IHt Hwt Hst Heq). apply list_eqb_N_refl.
+Qed.
+
+(* ================================================================================================ *)
+(* signatures *)
+
+Definition flat_rparam (p : rparam) : list token :=
+  TName (r_name p) :: (match r_ann p with Some e => TColon :: flat e | None => [] end)
+  ++ (if r_def p then [TEq; TEllipsis] else []).
+Definition flat_item (it : item) : list token :=
+  match it with
+  | ISlash => [TSlash]
+  | IStar None => [TStar]
+  | IStar (Some p) => TStar :: flat_rparam p
+  | IDStar p => TDStar :: flat_rparam p
+  | IParam p => flat_rparam p
+  end.
+
+Definition wfe_rparam (p : rparam) : bool := match r_ann p with Some e => wfe e | None => true end.
+Definition wfe_item (it : item) : bool :=
+  match it with
+  | ISlash | IStar None => true
+  | IStar (Some p) | IDStar p | IParam p => wfe_rparam p
+  end.
+
+(* what follows an item in a parameter list *)
+Definition item_end (ts : list token) : Prop :=
+  match ts with TComma :: _ | TRPar :: _ => True | _ => False end.
+
+Lemma parse_rparam_flat : forall p rest, wfe_rparam p = true -> item_end rest ->
+  parse_rparam (flat_rparam p ++ rest) = Some (p, rest).
+Proof.
+  intros [nm ann def] rest Hw Hr. unfold flat_rparam, wfe_rparam in *. cbn [r_name r_ann r_def] in *.
+  destruct ann as [e|].
+  - cbn [app]. rewrite <- app_assoc. cbn [parse_rparam].
+    rewrite (parse_flat_gen e Hw).
+    + destruct def; cbn [app]; [reflexivity|].
+      destruct rest as [|[] ?]; cbn in Hr; try contradiction; reflexivity.
+    + rewrite app_length. lia.
+    + destruct def; cbn; [exact I|]. destruct rest as [|[] ?]; cbn in Hr; try contradiction; exact I.
+  - destruct def; cbn; [reflexivity|].
+    destruct rest as [|[] ?]; cbn in Hr; try contradiction; reflexivity.
+Qed.
+
+Lemma parse_item_flat : forall it rest, wfe_item it = true -> item_end rest ->
+  parse_item (flat_item it ++ rest) = Some (it, rest).
+Proof.
+  intros it rest Hw Hr. destruct it as [|[p|]|p|p]; cbn [flat_item wfe_item] in *.
+  - reflexivity.
+  - cbn [app parse_item]. unfold flat_rparam at 1. cbn [app].
+    change (TName (r_name p) :: ((match r_ann p with Some e => TColon :: flat e | None => [] end ++ (if r_def p then [TEq; TEllipsis] else [])) ++ rest))
+      with (flat_rparam p ++ rest).
+    rewrite (parse_rparam_flat p rest Hw Hr). reflexivity.
+  - destruct rest as [|[] ?]; cbn in Hr; try contradiction; reflexivity.
+  - cbn [app parse_item]. rewrite (parse_rparam_flat p rest Hw Hr). reflexivity.
+  - unfold flat_rparam at 1. cbn [app parse_item].
+    change (TName (r_name p) :: ((match r_ann p with Some e => TColon :: flat e | None => [] end ++ (if r_def p then [TEq; TEllipsis] else [])) ++ rest))
+      with (flat_rparam p ++ rest).
+    rewrite (parse_rparam_flat p rest Hw Hr). reflexivity.
+Qed.
+
+Lemma parse_items_flat : forall its rest fuel,
+  forallb wfe_item its = true -> its <> [] -> length its <= fuel ->
+  parse_items fuel (sep (map flat_item its) ++ TRPar :: rest) = Some (its, TRPar :: rest).
+Proof.
+  induction its as [|it r IH]; intros rest fuel Hw Hne Hf; [congruence|].
+  cbn [forallb] in Hw. apply andb_true_iff in Hw. destruct Hw as [Hw1 Hw2].
+  destruct fuel as [|f]; [cbn in Hf; lia|]. cbn [parse_items].
+  destruct r as [|it2 r2].
+  - cbn [map]. rewrite sep_single. rewrite (parse_item_flat it (TRPar :: rest) Hw1 I). reflexivity.
+  - cbn [map]. rewrite sep_cons2. rewrite <- app_assoc. cbn [app].
+    rewrite (parse_item_flat it (TComma :: sep (flat_item it2 :: map flat_item r2) ++ TRPar :: rest) Hw1 I).
+    change (flat_item it2 :: map flat_item r2) with (map flat_item (it2 :: r2)).
+    rewrite (IH rest f Hw2 ltac:(discriminate)); [reflexivity|]. cbn in *. lia.
+Qed.
+
+(* ---- the printed parameter list as a list of items ---- *)
+
+Definition rp_of (c : ctx) (nm : N) (t : ty) (opt : bool) : rparam :=
+  mkR nm (if elided c nm t (print_ty (ctx_param c) t) then None else Some (to_expr (ctx_param c) t)) opt.
+Definition rp_param (c : ctx) (q : param) : rparam := rp_of c (p_name q) (p_ty q) (p_opt q).
+Definition rp_star (c : ctx) (st : N * ty) : rparam := rp_of c (fst st) (container_elem (snd st)) false.
+
+Lemma print_param_flat : forall env c nm t opt, wf env t = true ->
+  print_param c nm t opt = flat_rparam (rp_of c nm t opt) /\ wfe_rparam (rp_of c nm t opt) = true.
+Proof.
+  intros env c nm t opt Hw. unfold print_param, rp_of, flat_rparam, wfe_rparam. cbn [r_name r_ann r_def].
+  destruct (print_to_expr env (ctx_param c) t Hw) as [E W].
+  destruct (elided c nm t (print_ty (ctx_param c) t)).
+  - split; reflexivity.
+  - split; [|exact W]. rewrite E. cbn [app]. reflexivity.
+Qed.
+
+Lemma print_container_param : forall c st,
+  print_container c st = print_param c (fst st) (container_elem (snd st)) false.
+Proof. intros c [nm t]. unfold print_container, container_elem. cbn [fst snd]. destruct t; reflexivity. Qed.
+
+Fixpoint items_loop (c : ctx) (ps : list param) (star : option rparam) : list item :=
+  match ps with
+  | [] => match star with Some sp => [IStar (Some sp)] | None => [] end
+  | p :: rest =>
+      if pkind_eqb (p_kind p) KwOnly then IStar star :: map (fun q => IParam (rp_param c q)) (p :: rest)
+      else IParam (rp_param c p)
+           :: (if pkind_eqb (p_kind p) PosOnly &&
+                  match rest with [] => true | q :: _ => negb (pkind_eqb (p_kind q) PosOnly) end
+               then [ISlash] else [])
+           ++ items_loop c rest star
+  end.
+
+Lemma params_loop_items : forall env c ps star,
+  (forall p, In p ps -> wf env (p_ty p) = true) ->
+  params_loop c ps (option_map flat_rparam star) = map flat_item (items_loop c ps star) /\
+  forallb wfe_item (items_loop c ps star) = forallb wfe_item (match star with Some sp => [IStar (Some sp)] | None => [] end).
+Proof.
+  intros env c ps star. induction ps as [|p rest IH]; intros Hw.
+  - cbn. destruct star; split; reflexivity.
+  - assert (Hp: wf env (p_ty p) = true) by (apply Hw; left; reflexivity).
+    assert (Hrest: forall q, In q rest -> wf env (p_ty q) = true) by (intros q Hq; apply Hw; right; exact Hq).
+    destruct (print_param_flat env c (p_name p) (p_ty p) (p_opt p) Hp) as [E1 W1].
+    cbn [params_loop items_loop]. destruct (pkind_eqb (p_kind p) KwOnly).
+    + split.
+      * cbn [map flat_item]. f_equal; [destruct star; reflexivity|]. f_equal; [exact E1|].
+        rewrite map_map. apply map_ext_in. intros q Hq.
+        apply (print_param_flat env c (p_name q) (p_ty q) (p_opt q)). apply Hrest. exact Hq.
+      * cbn [map forallb wfe_item]. unfold rp_param at 1. rewrite W1. cbn [andb].
+        assert (Hall: forallb wfe_item (map (fun q => IParam (rp_param c q)) rest) = true).
+        { rewrite forallb_forall. intros it Hit. apply in_map_iff in Hit. destruct Hit as (q & <- & Hq).
+          apply (print_param_flat env c (p_name q) (p_ty q) (p_opt q)). apply Hrest. exact Hq. }
+        rewrite Hall. destruct star; cbn; rewrite ?andb_true_r; reflexivity.
+    + destruct (IH Hrest) as [IH1 IH2]. split.
+      * cbn [map flat_item]. f_equal; [exact E1|]. rewrite map_app, IH1. f_equal.
+        destruct (pkind_eqb (p_kind p) PosOnly && _); reflexivity.
+      * cbn [forallb wfe_item]. unfold rp_param at 1. rewrite W1. cbn [andb]. rewrite forallb_app, IH2.
+        destruct (pkind_eqb (p_kind p) PosOnly && _); reflexivity.
+Qed.
+
+(* ---- the split into positional-only / regular / keyword-only parameters ---- *)
+
+Definition has_kind (k : pkind) (p : param) : Prop := p_kind p = k.
+
+Lemma kinds_split : forall ps, kinds_sorted ps = true ->
+  exists P R K, ps = P ++ R ++ K /\ Forall (has_kind PosOnly) P /\ Forall (has_kind Regular) R /\
+                Forall (has_kind KwOnly) K.
+Proof.
+  induction ps as [|p rest IH]; intros Hs.
+  - exists [], [], []. repeat split; constructor.
+  - assert (Hrest: kinds_sorted rest = true).
+    { destruct rest as [|q r]; [reflexivity|]. cbn in Hs. apply andb_true_iff in Hs. apply Hs. }
+    destruct (IH Hrest) as (P & R & K & E & HP & HR & HK). subst rest.
+    assert (Hnext: forall q r, P ++ R ++ K = q :: r -> kind_rank (p_kind p) <= kind_rank (p_kind q)).
+    { intros q r Eq. rewrite Eq in Hs. cbn in Hs. apply andb_true_iff in Hs. destruct Hs as [Hs _].
+      apply Nat.leb_le in Hs. exact Hs. }
+    destruct (p_kind p) eqn:Ek.
+    + exists (p :: P), R, K. repeat split; try assumption. constructor; assumption.
+    + destruct P as [|q P'].
+      * exists [], (p :: R), K. repeat split; try assumption; constructor; assumption.
+      * exfalso. specialize (Hnext q (P' ++ R ++ K) eq_refl). inversion HP as [|? ? Hq _]; subst.
+        unfold has_kind in Hq. rewrite Hq in Hnext. cbn in Hnext. lia.
+    + destruct P as [|q P'].
+      * destruct R as [|q R'].
+        -- exists [], [], (p :: K). repeat split; try assumption; constructor; assumption.
+        -- exfalso. specialize (Hnext q (R' ++ K) eq_refl). inversion HR as [|? ? Hq _]; subst.
+           unfold has_kind in Hq. rewrite Hq in Hnext. cbn in Hnext. lia.
+      * exfalso. specialize (Hnext q (P' ++ R ++ K) eq_refl). inversion HP as [|? ? Hq _]; subst.
+        unfold has_kind in Hq. rewrite Hq in Hnext. cbn in Hnext. lia.
+Qed.
+
+Definition rps (c : ctx) (ps : list param) : list rparam := map (rp_param c) ps.
+
+Lemma items_loop_kw : forall c K star, Forall (has_kind KwOnly) K ->
+  items_loop c K star =
+  match K with
+  | [] => match star with Some sp => [IStar (Some sp)] | None => [] end
+  | _ => IStar star :: map IParam (rps c K)
+  end.
+Proof.
+  intros c K star HK. destruct K as [|p rest]; [reflexivity|].
+  inversion HK as [|? ? Hp _]; subst. cbn [items_loop]. unfold has_kind in Hp. rewrite Hp. cbn [pkind_eqb].
+  unfold rps. rewrite map_map. reflexivity.
+Qed.
+
+Lemma items_loop_reg : forall c R rest star, Forall (has_kind Regular) R ->
+  items_loop c (R ++ rest) star = map IParam (rps c R) ++ items_loop c rest star.
+Proof.
+  intros c R rest star HR. induction HR as [|p R' Hp _ IH]; [reflexivity|].
+  cbn [app items_loop]. unfold has_kind in Hp. rewrite Hp. cbn [pkind_eqb andb app]. rewrite IH. reflexivity.
+Qed.
+
+Lemma items_loop_pos : forall c P rest star, Forall (has_kind PosOnly) P -> P <> [] ->
+  match rest with [] => True | q :: _ => p_kind q <> PosOnly end ->
+  items_loop c (P ++ rest) star = map IParam (rps c P) ++ ISlash :: items_loop c rest star.
+Proof.
+  intros c P rest star HP. induction HP as [|p P' Hp HP' IH]; intros Hne Hrest; [congruence|].
+  cbn [app items_loop]. unfold has_kind in Hp. rewrite Hp. cbn [pkind_eqb andb].
+  destruct P' as [|p2 P''].
+  - cbn [app]. assert (Hc: match rest with [] => true | q :: _ => negb (pkind_eqb (p_kind q) PosOnly) end = true).
+    { destruct rest as [|q r]; [reflexivity|]. destruct (p_kind q); try reflexivity. congruence. }
+    rewrite Hc. reflexivity.
+  - cbn [app]. inversion HP' as [|? ? Hp2 _]; subst. unfold has_kind in Hp2. rewrite Hp2. cbn [pkind_eqb negb app].
+    change (p2 :: P'' ++ rest) with ((p2 :: P'') ++ rest). rewrite IH; [reflexivity|discriminate|exact Hrest].
+Qed.
+
+Lemma build_params : forall ph pos reg X rest,
+  (ph = 0 \/ ph = 1)%nat ->
+  build_rsig ph (mkRS pos reg None [] None) false (map IParam X ++ rest) =
+  build_rsig ph (mkRS pos (reg ++ X) None [] None) false rest.
+Proof.
+  intros ph pos reg X. revert reg. induction X as [|x X IH]; intros reg rest Hph.
+  - rewrite app_nil_r. reflexivity.
+  - cbn [map app build_rsig]. destruct Hph as [->| ->]; cbn [rs_pos rs_reg]; rewrite IH by auto;
+      rewrite <- app_assoc; reflexivity.
+Qed.
+
+Lemma build_kw : forall pos reg st kw bare X rest,
+  build_rsig 2 (mkRS pos reg st kw None) bare (map IParam X ++ rest) =
+  build_rsig 2 (mkRS pos reg st (kw ++ X) None) bare rest.
+Proof.
+  intros pos reg st kw bare X. revert kw. induction X as [|x X IH]; intros kw rest.
+  - rewrite app_nil_r. reflexivity.
+  - cbn [map app build_rsig rs_pos rs_reg rs_star rs_kw]. rewrite IH. rewrite <- app_assoc. reflexivity.
+Qed.
+
+Lemma build_tail : forall ph pos reg st kw bare sst,
+  (ph <= 2)%nat -> (bare = true -> kw <> []) ->
+  (forall p, sst = Some p -> r_def p = false) ->
+  build_rsig ph (mkRS pos reg st kw None) bare (match sst with Some p => [IDStar p] | None => [] end) =
+  Some (mkRS pos reg st kw sst).
+Proof.
+  intros ph pos reg st kw bare sst Hph Hb Hd.
+  assert (Hbk: bare && match kw with [] => true | _ => false end = false).
+  { destruct bare; [|reflexivity]. destruct kw; [exfalso; apply Hb; reflexivity|reflexivity]. }
+  destruct sst as [p|].
+  - cbn [build_rsig rs_pos rs_reg rs_star rs_kw]. unfold no_default. rewrite (Hd p eq_refl). rewrite Hbk. cbn.
+    destruct ph as [|[|[|ph]]]; try reflexivity. lia.
+  - cbn [build_rsig rs_kw]. rewrite Hbk. reflexivity.
+Qed.
+
+Lemma build_items : forall c P R K star sst,
+  Forall (has_kind PosOnly) P -> Forall (has_kind Regular) R -> Forall (has_kind KwOnly) K ->
+  (forall p, star = Some p -> r_def p = false) -> (forall p, sst = Some p -> r_def p = false) ->
+  build_rsig 0 (mkRS [] [] None [] None) false
+    (items_loop c (P ++ R ++ K) star ++ match sst with Some p => [IDStar p] | None => [] end) =
+  Some (mkRS (rps c P) (rps c R) star (rps c K) sst).
+Proof.
+  intros c P R K star sst HP HR HK Hst Hsst.
+  (* after the positional-only block *)
+  assert (Hmid: forall ph pos, (ph = 0 \/ ph = 1)%nat ->
+            build_rsig ph (mkRS pos [] None [] None) false
+              (items_loop c (R ++ K) star ++ match sst with Some p => [IDStar p] | None => [] end) =
+            Some (mkRS pos (rps c R) star (rps c K) sst)).
+  { intros ph pos Hph. rewrite (items_loop_reg c R K star HR). rewrite <- app_assoc.
+    rewrite build_params by exact Hph. cbn [app].
+    rewrite (items_loop_kw c K star HK).
+    destruct K as [|k0 K'].
+    - destruct star as [sp|].
+      + destruct Hph as [->| ->]; cbn [app build_rsig]; unfold no_default; rewrite (Hst sp eq_refl);
+          cbn [negb rs_pos rs_reg rs_star rs_kw]; apply build_tail; try lia; try discriminate; assumption.
+      + cbn [app]. destruct Hph as [->| ->]; apply build_tail; try lia; try discriminate; assumption.
+    - destruct star as [sp|].
+      + destruct Hph as [->| ->]; cbn [app build_rsig]; unfold no_default; rewrite (Hst sp eq_refl);
+          cbn [negb rs_pos rs_reg rs_star rs_kw]; rewrite build_kw; cbn [app]; apply build_tail; try lia; try discriminate; try assumption.
+      + destruct Hph as [->| ->]; cbn [app build_rsig]; rewrite build_kw; cbn [app];
+          apply build_tail; try lia; try assumption; intros _; discriminate. }
+  destruct P as [|p0 P'].
+  - cbn [app]. apply Hmid. left. reflexivity.
+  - rewrite (items_loop_pos c (p0 :: P') (R ++ K) star HP ltac:(discriminate)).
+    + rewrite <- app_assoc. rewrite build_params by (left; reflexivity). cbn [app build_rsig rs_reg].
+      apply Hmid. right. reflexivity.
+    + destruct R as [|r0 R']; [destruct K as [|k0 K']; [exact I|]|].
+      * cbn. inversion HK as [|? ? Hk _]; subst. unfold has_kind in Hk. rewrite Hk. discriminate.
+      * cbn. inversion HR as [|? ? Hr _]; subst. unfold has_kind in Hr. rewrite Hr. discriminate.
+Qed.
+
+(* ---- the conversions of function.py on the printed items ---- *)
+
+Lemma conv_rp : forall env c nm t opt, wf env t = true ->
+  conv_ann env (r_ann (rp_of c nm t opt)) = Some (norm_pty c nm t).
+Proof.
+  intros env c nm t opt Hw. unfold rp_of, norm_pty. cbn [r_ann].
+  destruct (elided c nm t (print_ty (ctx_param c) t)); [reflexivity|].
+  cbn [conv_ann]. apply conv_to_expr. exact Hw.
+Qed.
+
+Lemma conv_params : forall env c k X,
+  Forall (has_kind k) X ->
+  (forall p, In p X -> wf env (p_ty p) = true /\ p_mut p = None) ->
+  mapM (conv_param env k) (rps c X) = Some (map (norm_param c) X).
+Proof.
+  intros env c k X HX Hw. unfold rps. apply mapM_map. intros p Hp.
+  destruct (Hw p Hp) as [Hwp Hm]. rewrite Forall_forall in HX. specialize (HX p Hp). unfold has_kind in HX.
+  unfold conv_param, rp_param. rewrite (conv_rp env c _ _ _ Hwp). unfold norm_param. rewrite Hm, HX. reflexivity.
+Qed.
+
+Lemma conv_star_ok : forall env c st, wf_container env false st = true ->
+  conv_star env (Some (rp_star c st)) = Some (Some (norm_star c st)).
+Proof.
+  intros env c [nm t] Hw. unfold wf_container in Hw. cbn [snd] in Hw.
+  unfold rp_star, rp_of, norm_star, conv_star. cbn [fst snd r_ann r_name].
+  assert (Hwe: wf env (container_elem t) = true).
+  { destruct t; try discriminate; cbn [container_elem]; [reflexivity|]. apply andb_true_iff in Hw. apply Hw. }
+  destruct (elided c nm (container_elem t) (print_ty (ctx_param c) (container_elem t))); [reflexivity|].
+  rewrite (conv_to_expr env (ctx_param c) _ Hwe). reflexivity.
+Qed.
+
+Lemma conv_sstar_ok : forall env c st, wf_container env true st = true ->
+  conv_sstar env (Some (rp_star c st)) = Some (Some (norm_sstar c st)).
+Proof.
+  intros env c [nm t] Hw. unfold wf_container in Hw. cbn [snd] in Hw.
+  unfold rp_star, rp_of, norm_sstar, conv_sstar. cbn [fst snd r_ann r_name].
+  assert (Hwe: wf env (container_elem t) = true).
+  { destruct t; try discriminate; cbn [container_elem]; [reflexivity|]. apply andb_true_iff in Hw. apply Hw. }
+  destruct (elided c nm (container_elem t) (print_ty (ctx_param c) (container_elem t))); [reflexivity|].
+  rewrite (conv_to_expr env (ctx_param c) _ Hwe). reflexivity.
+Qed.
+
+(* the printed return annotation *)
+Definition ret_expr (c : ctx) (t : ty) : expr :=
+  if tokens_eqb (print_ty (ctx_plain c) t) [TName id_nothing] then EName id_Never else to_expr (ctx_plain c) t.
+
+Lemma ret_ok : forall env c t, wf env t = true -> is_tvar env id_Never = false ->
+  (if tokens_eqb (print_ty (ctx_plain c) t) [TName id_nothing] then [TName id_Never] else print_ty (ctx_plain c) t)
+    = flat (ret_expr c t) /\ wfe (ret_expr c t) = true /\ conv env (ret_expr c t) = Some (norm_ret c t).
+Proof.
+  intros env c t Hw Hv. unfold ret_expr, norm_ret.
+  destruct (print_to_expr env (ctx_plain c) t Hw) as [E W].
+  destruct (tokens_eqb (print_ty (ctx_plain c) t) [TName id_nothing]) eqn:En.
+  - repeat split. cbn [conv]. unfold conv_name. rewrite Hv. reflexivity.
+  - repeat split; [exact E | exact W | apply conv_to_expr; exact Hw].
+Qed.
+
+Definition items_of (c : ctx) (s : sig) : list item :=
+  items_loop c (s_params s) (option_map (rp_star c) (s_star s)) ++
+  match s_sstar s with Some st => [IDStar (rp_star c st)] | None => [] end.
+
+(* the part of parse_sig that follows the syntax, for a body that is `...` *)
+Definition finish_sig (env : penv) (scope : list N) (its : list item) (re : expr) : option sig :=
+  match build_rsig 0 (mkRS [] [] None [] None) false its with
+  | Some rs =>
+      if defaults_ok false (rs_pos rs ++ rs_reg rs) then
+        match mapM (conv_param env PosOnly) (rs_pos rs),
+              mapM (conv_param env Regular) (rs_reg rs),
+              mapM (conv_param env KwOnly) (rs_kw rs),
+              conv_star env (rs_star rs), conv_sstar env (rs_sstar rs),
+              conv env re with
+        | Some pp, Some pr, Some pk, Some st, Some sst, Some ret =>
+            let s0 := mkSig (pp ++ pr ++ pk) st sst ret in
+            let selfm :=
+              match first_param rs, pp ++ pr ++ pk with
+              | Some fp, q :: _ =>
+                  if (r_name fp =? id_self)%N &&
+                     match r_ann fp with Some e => expr_is_generic e | None => false end
+                  then [(id_self, p_ty q)] else []
+              | _, _ => []
+              end in
+            match apply_mutators s0 ([] ++ selfm) with
+            | Some s1 => if verify_mutators scope s1 then Some s1 else None
+            | None => None
+            end
+        | _, _, _, _, _, _ => None
+        end
+      else None
+  | None => None
+  end.
+
+Lemma flat_item_head : forall it, exists t r, flat_item it = t :: r /\ t <> TRPar.
+Proof.
+  destruct it as [|[p|]|p|p]; cbn; unfold flat_rparam; cbn; eexists; eexists; (split; [reflexivity|discriminate]).
+Qed.
+
+Lemma sep_items_length : forall its, length its <= length (sep (map flat_item its)).
+Proof.
+  induction its as [|it r IH]; [cbn; lia|]. destruct r as [|it2 r2].
+  - cbn [map]. rewrite sep_single. destruct (flat_item_head it) as (t & q & -> & _). cbn. lia.
+  - cbn [map]. rewrite sep_cons2. rewrite app_length. cbn [length]. cbn [map] in IH. cbn [length] in *. lia.
+Qed.
+
+Lemma parse_sig_tokens : forall env scope its re,
+  forallb wfe_item its = true -> wfe re = true ->
+  parse_sig env scope (TLPar :: sep (map flat_item its) ++ TRPar :: TArrow :: flat re ++ TColon :: [TEllipsis]) =
+  finish_sig env scope its re.
+Proof.
+  intros env scope its re Hw Hre. unfold parse_sig.
+  assert (Hret: forall r1, r1 = flat re ++ TColon :: [TEllipsis] ->
+            parse_expr (S (length r1)) r1 = Some (re, TColon :: [TEllipsis])).
+  { intros r1 ->. apply parse_flat_gen; [exact Hre | rewrite app_length; lia | exact I]. }
+  destruct its as [|it its'].
+  - cbn [map sep app]. rewrite (Hret _ eq_refl). reflexivity.
+  - destruct (flat_item_head it) as (t & q & Eh & Hne).
+    assert (Hsep: exists q', sep (map flat_item (it :: its')) = t :: q').
+    { destruct its'; cbn [map]; [rewrite sep_single|rewrite sep_cons2]; rewrite Eh; cbn [app]; eauto. }
+    destruct Hsep as (q' & Hsep).
+    pose proof (parse_items_flat (it :: its') (TArrow :: flat re ++ TColon :: [TEllipsis])
+                  (S (length (sep (map flat_item (it :: its')) ++ TRPar :: TArrow :: flat re ++ TColon :: [TEllipsis])))
+                  Hw ltac:(discriminate)) as HP.
+    rewrite HP by (rewrite app_length; pose proof (sep_items_length (it :: its')); lia).
+    rewrite Hsep. cbn [app].
+    destruct t; try congruence; rewrite (Hret _ eq_refl); reflexivity.
+Qed.
+
+Lemma wf_sig_parts : forall env scope c s, wf_sig env scope c s = true ->
+  (forall p, In p (s_params s) -> wf env (p_ty p) = true) /\
+  kinds_sorted (s_params s) = true /\ defaults_sorted false (s_params s) = true /\
+  (forall st, s_star s = Some st -> wf_container env false st = true) /\
+  (forall st, s_sstar s = Some st -> wf_container env true st = true) /\
+  wf env (s_ret s) = true /\ is_tvar env id_Never = false.
+Proof.
+  intros env scope c s H. unfold wf_sig in H.
+  repeat (apply andb_true_iff in H; destruct H as [H ?]).
+  rename H0 into Hnever, H1 into Hvm, H2 into Hself, H3 into Hret, H4 into Hss, H5 into Hst, H6 into Hnd,
+         H7 into Hdef, H8 into Hkinds.
+  repeat split; try assumption.
+  - intros p Hp. rewrite forallb_forall in H. specialize (H p Hp). apply andb_true_iff in H. apply H.
+  - intros st E. rewrite E in Hst. exact Hst.
+  - intros st E. rewrite E in Hss. exact Hss.
+  - apply negb_true_iff in Hnever. exact Hnever.
+Qed.
+
+Lemma no_mut_body : forall c ps,
+  forallb (fun p => match p_mut p with None => true | Some _ => false end) ps = true ->
+  print_body c ps = [TEllipsis].
+Proof.
+  intros c ps H. unfold print_body.
+  assert (E: flat_map (fun p => match p_mut p with
+                                | Some m => TNewline :: TName (p_name p) :: TEq :: print_ty (ctx_plain c) m
+                                | None => [] end) ps = []).
+  { induction ps as [|p r IH]; [reflexivity|]. cbn in H. apply andb_true_iff in H.
+    destruct H as [Hp Hr]. cbn [flat_map]. destruct (p_mut p); [discriminate|]. apply IH. exact Hr. }
+  rewrite E. reflexivity.
+Qed.
+
+Lemma print_sig_items : forall env scope c s, wf_sig env scope c s = true ->
+  forallb (fun p => match p_mut p with None => true | Some _ => false end) (s_params s) = true ->
+  print_sig c s = TLPar :: sep (map flat_item (items_of c s)) ++ TRPar :: TArrow :: flat (ret_expr c (s_ret s)) ++ TColon :: [TEllipsis]
+  /\ forallb wfe_item (items_of c s) = true /\ wfe (ret_expr c (s_ret s)) = true /\
+  conv env (ret_expr c (s_ret s)) = Some (norm_ret c (s_ret s)).
+Proof.
+  intros env scope c s Hwf Hmut.
+  destruct (wf_sig_parts env scope c s Hwf) as (Hps & Hk & Hd & Hst & Hss & Hret & Hnev).
+  destruct (ret_ok env c (s_ret s) Hret Hnev) as (Er & Wr & Cr).
+  assert (Hstar: forall st, wf_container env false st = true \/ wf_container env true st = true ->
+            print_container c st = flat_rparam (rp_star c st) /\ wfe_rparam (rp_star c st) = true).
+  { intros st Hw. rewrite print_container_param. unfold rp_star.
+    apply (print_param_flat env). destruct st as [nm t]. cbn [snd].
+    unfold wf_container in Hw. cbn [snd] in Hw.
+    destruct t; cbn [container_elem]; try reflexivity; destruct Hw as [Hw|Hw]; try discriminate;
+      apply andb_true_iff in Hw; apply Hw. }
+  pose proof (no_mut_body c (s_params s) Hmut) as Ebody.
+  set (star := option_map (rp_star c) (s_star s)).
+  destruct (params_loop_items env c (s_params s) star Hps) as [EL WL].
+  assert (Estar: match s_star s with Some st => Some (print_container c st) | None => None end = option_map flat_rparam star).
+  { unfold star. destruct (s_star s) as [st|] eqn:E; [|reflexivity]. cbn. f_equal. apply Hstar. left. apply Hst. reflexivity. }
+  split; [|split; [|split; assumption]].
+  - unfold print_sig. rewrite Estar, EL, Ebody, Er. unfold items_of. fold star. rewrite map_app.
+    assert (Ess: match s_sstar s with Some st => [TDStar :: print_container c st] | None => [] end =
+                 map flat_item (match s_sstar s with Some st => [IDStar (rp_star c st)] | None => [] end)).
+    { destruct (s_sstar s) as [st|] eqn:E; [|reflexivity]. cbn. f_equal. f_equal. apply Hstar. right. apply Hss. reflexivity. }
+    rewrite Ess. cbn [app]. reflexivity.
+  - unfold items_of. fold star. rewrite forallb_app, WL.
+    assert (W1: forallb wfe_item (match star with Some sp => [IStar (Some sp)] | None => [] end) = true).
+    { unfold star. destruct (s_star s) as [st|] eqn:E; [|reflexivity]. cbn. rewrite andb_true_r. apply Hstar. left. apply Hst. reflexivity. }
+    rewrite W1. destruct (s_sstar s) as [st|] eqn:E; [|reflexivity]. cbn. rewrite andb_true_r. apply Hstar. right. apply Hss. reflexivity.
+Qed.
+
+Lemma defaults_ok_rps : forall c X K seen,
+  Forall (fun p => p_kind p <> KwOnly) X -> Forall (has_kind KwOnly) K ->
+  defaults_sorted seen (X ++ K) = defaults_ok seen (rps c X).
+Proof.
+  intros c X K seen HX HK. revert seen. induction HX as [|p X' Hp _ IH]; intros seen.
+  - cbn [app rps map defaults_ok]. destruct K as [|k K']; [reflexivity|].
+    inversion HK as [|? ? Hk _]; subst. cbn. unfold has_kind in Hk. rewrite Hk. reflexivity.
+  - cbn [app rps map defaults_sorted defaults_ok]. unfold rp_param at 1. unfold rp_of. cbn [r_def].
+    assert (Ek: pkind_eqb (p_kind p) KwOnly = false) by (destruct (p_kind p); try reflexivity; congruence).
+    rewrite Ek. destruct (p_opt p); [apply IH|]. f_equal. apply IH.
+Qed.
+
+Lemma prints_generic_flat : forall e, prints_generic (flat e) = expr_is_generic e.
+Proof. destruct e; reflexivity. Qed.
+
+Lemma norm_param_nomut : forall c ps,
+  forallb (fun p => match p_mut p with None => true | Some _ => false end) ps = true ->
+  forallb (fun p => match p_mut p with None => true | Some _ => false end) (map (norm_param c) ps) = true.
+Proof.
+  intros c ps H. rewrite forallb_forall in *. intros q Hq. apply in_map_iff in Hq. destruct Hq as (p & <- & Hp).
+  specialize (H p Hp). unfold norm_param. cbn [p_mut]. destruct (p_mut p); [discriminate|reflexivity].
+Qed.
+
+Lemma verify_mutators_nomut : forall scope s,
+  forallb (fun p => match p_mut p with None => true | Some _ => false end) (s_params s) = true ->
+  verify_mutators scope s = true.
+Proof.
+  intros scope s H. unfold verify_mutators. rewrite forallb_forall in *. intros p Hp. specialize (H p Hp).
+  destruct (p_mut p); [discriminate|reflexivity].
+Qed.
+
+Theorem parse_sig_print_lemma : forall env scope c s,
+  wf_sig env scope c s = true -> simple_sig c s = true ->
+  parse_sig env scope (print_sig c s) = Some (norm_sig c s).
+Proof.
+  intros env scope c s Hwf Hsimple.
+  unfold simple_sig in Hsimple. apply andb_true_iff in Hsimple. destruct Hsimple as [Hmut Hself].
+  apply negb_true_iff in Hself.
+  destruct (print_sig_items env scope c s Hwf Hmut) as (E & W & Wr & Cr).
+  destruct (wf_sig_parts env scope c s Hwf) as (Hps & Hk & Hd & Hst & Hss & Hret & Hnev).
+  rewrite E. rewrite (parse_sig_tokens env scope _ _ W Wr).
+  destruct (kinds_split (s_params s) Hk) as (P & R & K & Eps & HP & HR & HK).
+  unfold finish_sig, items_of. rewrite Eps.
+  assert (Edst: match s_sstar s with Some st => [IDStar (rp_star c st)] | None => [] end =
+                match option_map (rp_star c) (s_sstar s) with Some p => [IDStar p] | None => [] end)
+    by (destruct (s_sstar s); reflexivity).
+  rewrite Edst.
+  rewrite (build_items c P R K (option_map (rp_star c) (s_star s)) (option_map (rp_star c) (s_sstar s)) HP HR HK).
+  2:{ intros p Ep. destruct (s_star s); [|discriminate]. injection Ep as <-. reflexivity. }
+  2:{ intros p Ep. destruct (s_sstar s); [|discriminate]. injection Ep as <-. reflexivity. }
+  cbn [rs_pos rs_reg rs_star rs_kw rs_sstar].
+  (* defaults *)
+  assert (Hdef: defaults_ok false (rps c P ++ rps c R) = true).
+  { unfold rps. rewrite <- map_app. fold (rps c (P ++ R)).
+    rewrite <- (defaults_ok_rps c (P ++ R) K false).
+    - rewrite <- app_assoc. rewrite <- Eps. exact Hd.
+    - apply Forall_app. split.
+      + eapply Forall_impl; [|exact HP]. intros p Hp. unfold has_kind in Hp. rewrite Hp. discriminate.
+      + eapply Forall_impl; [|exact HR]. intros p Hp. unfold has_kind in Hp. rewrite Hp. discriminate.
+    - exact HK. }
+  rewrite Hdef.
+  assert (Hin: forall X, (forall p, In p X -> In p (s_params s)) ->
+            forall p, In p X -> wf env (p_ty p) = true /\ p_mut p = None).
+  { intros X HX p Hp. split; [apply Hps; apply HX; exact Hp|].
+    rewrite forallb_forall in Hmut. specialize (Hmut p (HX p Hp)). destruct (p_mut p); [discriminate|reflexivity]. }
+  rewrite (conv_params env c PosOnly P HP) by (apply Hin; intros p Hp; rewrite Eps; apply in_or_app; left; exact Hp).
+  rewrite (conv_params env c Regular R HR) by (apply Hin; intros p Hp; rewrite Eps; apply in_or_app; right; apply in_or_app; left; exact Hp).
+  rewrite (conv_params env c KwOnly K HK) by (apply Hin; intros p Hp; rewrite Eps; apply in_or_app; right; apply in_or_app; right; exact Hp).
+  assert (Cst: conv_star env (option_map (rp_star c) (s_star s)) = Some (option_map (norm_star c) (s_star s))).
+  { destruct (s_star s) as [st|] eqn:Es; [|reflexivity]. cbn [option_map]. apply conv_star_ok. apply Hst. reflexivity. }
+  assert (Csst: conv_sstar env (option_map (rp_star c) (s_sstar s)) = Some (option_map (norm_sstar c) (s_sstar s))).
+  { destruct (s_sstar s) as [st|] eqn:Es; [|reflexivity]. cbn [option_map]. apply conv_sstar_ok. apply Hss. reflexivity. }
+  rewrite Cst, Csst, Cr. cbv beta iota zeta.
+  rewrite <- !map_app. rewrite <- Eps.
+  assert (Hselfm: match first_param (mkRS (rps c P) (rps c R) (option_map (rp_star c) (s_star s)) (rps c K) (option_map (rp_star c) (s_sstar s))),
+                        map (norm_param c) (s_params s) with
+                  | Some fp, q :: _ =>
+                      if (r_name fp =? id_self)%N && match r_ann fp with Some e => expr_is_generic e | None => false end
+                      then [(id_self, p_ty q)] else []
+                  | _, _ => []
+                  end = []).
+  { unfold first_param. cbn [rs_pos rs_reg rs_kw]. unfold rps. rewrite <- !map_app. rewrite <- Eps.
+    unfold self_mutated in Hself.
+    destruct (s_params s) as [|p0 pr]; [reflexivity|]. cbn [map].
+    unfold rp_param, rp_of. cbn [r_name r_ann].
+    destruct (p_name p0 =? id_self)%N; [|reflexivity]. cbn [andb] in *.
+    destruct (elided c (p_name p0) (p_ty p0) (print_ty (ctx_param c) (p_ty p0))); [reflexivity|].
+    cbn [negb andb] in Hself.
+    destruct (print_to_expr env (ctx_param c) (p_ty p0) (Hps p0 (or_introl eq_refl))) as [Ep0 _].
+    rewrite Ep0, prints_generic_flat in Hself. rewrite Hself. reflexivity. }
+  rewrite Hselfm. cbn [app apply_mutators].
+  rewrite verify_mutators_nomut by (cbn [s_params]; apply norm_param_nomut; exact Hmut).
+  unfold norm_sig. rewrite Hself.
+  destruct (s_star s), (s_sstar s), (map (norm_param c) (s_params s)); reflexivity.
+Qed.
+
+(* ---- printing the canonical signature ---- *)
+
+Lemma elided_any : forall c nm printed, elided c nm AnyT printed = true.
+Proof. reflexivity. Qed.
+
+Lemma print_param_norm : forall env c nm t opt,
+  wf env t = true -> stable (ctx_param c) t = true -> any_ok c t = true ->
+  print_param c nm (norm_pty c nm t) opt = print_param c nm t opt.
+Proof.
+  intros env c nm t opt Hw Hs Ha. unfold norm_pty, print_param.
+  destruct (elided c nm t (print_ty (ctx_param c) t)) eqn:El.
+  - reflexivity.
+  - change (ctx_param (ctx_param c)) with (ctx_param c).
+    rewrite (print_norm_lemma env (ctx_param c) t Hw Hs).
+    assert (E: elided c nm (norm (ctx_param c) t) (print_ty (ctx_param c) t) = false).
+    { unfold any_ok in Ha. unfold elided in *.
+      destruct t; try (cbn in El; discriminate);
+        destruct (norm (ctx_param c) _) eqn:En; try exact El; cbn in Ha; try discriminate; try rewrite En in Ha; try discriminate.
+      all: try (cbn in En; discriminate). }
+    rewrite E. reflexivity.
+Qed.
+
+Lemma norm_param_kind : forall c p, p_kind (norm_param c p) = p_kind p. Proof. reflexivity. Qed.
+Lemma norm_param_name : forall c p, p_name (norm_param c p) = p_name p. Proof. reflexivity. Qed.
+Lemma norm_param_opt : forall c p, p_opt (norm_param c p) = p_opt p. Proof. reflexivity. Qed.
+Lemma norm_param_ty : forall c p, p_ty (norm_param c p) = norm_pty c (p_name p) (p_ty p). Proof. reflexivity. Qed.
+
+Lemma params_loop_norm : forall env c ps star,
+  (forall p, In p ps -> wf env (p_ty p) = true /\ stable (ctx_param c) (p_ty p) = true /\ any_ok c (p_ty p) = true) ->
+  params_loop c (map (norm_param c) ps) star = params_loop c ps star.
+Proof.
+  intros env c ps star. induction ps as [|p rest IH]; intros H; [reflexivity|].
+  assert (Hq: forall q, In q (p :: rest) ->
+            print_param c (p_name (norm_param c q)) (p_ty (norm_param c q)) (p_opt (norm_param c q)) =
+            print_param c (p_name q) (p_ty q) (p_opt q)).
+  { intros q Hq. rewrite norm_param_name, norm_param_ty, norm_param_opt.
+    destruct (H q Hq) as (A & B & C). apply (print_param_norm env); assumption. }
+  assert (Hrest: forall q, In q rest -> wf env (p_ty q) = true /\ stable (ctx_param c) (p_ty q) = true /\ any_ok c (p_ty q) = true)
+    by (intros q Hq'; apply H; right; exact Hq').
+  cbn [map params_loop]. rewrite norm_param_kind.
+  destruct (pkind_eqb (p_kind p) KwOnly).
+  - f_equal. cbn [map]. f_equal; [apply Hq; left; reflexivity|].
+    rewrite map_map. apply map_ext_in. intros q Hq'. apply Hq. right. exact Hq'.
+  - rewrite (Hq p (or_introl eq_refl)). f_equal. rewrite (IH Hrest). f_equal.
+    destruct rest as [|q r]; [reflexivity|]. cbn [map]. rewrite norm_param_kind. reflexivity.
+Qed.
+
+Lemma print_container_norm_star : forall env c st,
+  wf_container env false st = true ->
+  stable (ctx_param c) (container_elem (snd st)) = true -> any_ok c (container_elem (snd st)) = true ->
+  print_container c (norm_star c st) = print_container c st.
+Proof.
+  intros env c [nm t] Hw Hs Ha. rewrite !print_container_param. unfold norm_star. cbn [fst snd] in *.
+  assert (Hwe: wf env (container_elem t) = true).
+  { unfold wf_container in Hw. cbn [snd] in Hw. destruct t; try discriminate; cbn [container_elem]; [reflexivity|].
+    apply andb_true_iff in Hw. apply Hw. }
+  pose proof (print_param_norm env c nm (container_elem t) false Hwe Hs Ha) as Hp. unfold norm_pty in Hp.
+  destruct (elided c nm (container_elem t) (print_ty (ctx_param c) (container_elem t))) eqn:El; cbn [fst snd container_elem last].
+  - rewrite <- Hp. reflexivity.
+  - exact Hp.
+Qed.
+
+Lemma print_container_norm_sstar : forall env c st,
+  wf_container env true st = true ->
+  stable (ctx_param c) (container_elem (snd st)) = true -> any_ok c (container_elem (snd st)) = true ->
+  print_container c (norm_sstar c st) = print_container c st.
+Proof.
+  intros env c [nm t] Hw Hs Ha. rewrite !print_container_param. unfold norm_sstar. cbn [fst snd] in *.
+  assert (Hwe: wf env (container_elem t) = true).
+  { unfold wf_container in Hw. cbn [snd] in Hw. destruct t; try discriminate; cbn [container_elem]; [reflexivity|].
+    apply andb_true_iff in Hw. apply Hw. }
+  pose proof (print_param_norm env c nm (container_elem t) false Hwe Hs Ha) as Hp. unfold norm_pty in Hp.
+  destruct (elided c nm (container_elem t) (print_ty (ctx_param c) (container_elem t))) eqn:El; cbn [fst snd container_elem last].
+  - rewrite <- Hp. reflexivity.
+  - exact Hp.
+Qed.
+
+Theorem print_sig_norm_lemma : forall env scope c s,
+  wf_sig env scope c s = true -> simple_sig c s = true -> stable_sig c s = true ->
+  print_sig c (norm_sig c s) = print_sig c s.
+Proof.
+  intros env scope c s Hwf Hsimple Hst.
+  unfold simple_sig in Hsimple. apply andb_true_iff in Hsimple. destruct Hsimple as [Hmut Hself].
+  apply negb_true_iff in Hself.
+  destruct (wf_sig_parts env scope c s Hwf) as (Hps & Hk & Hd & Hstar & Hsstar & Hret & Hnev).
+  unfold stable_sig in Hst. repeat (apply andb_true_iff in Hst; destruct Hst as [Hst ?]).
+  rename H into Hnoself, H0 into Sret, H1 into Ssstar, H2 into Sstar.
+  assert (Hall: forall p, In p (s_params s) -> wf env (p_ty p) = true /\ stable (ctx_param c) (p_ty p) = true /\ any_ok c (p_ty p) = true).
+  { intros p Hp. rewrite forallb_forall in Hst. specialize (Hst p Hp).
+    apply andb_true_iff in Hst. destruct Hst as [Hst _]. apply andb_true_iff in Hst. destruct Hst as [A B].
+    repeat split; [apply Hps; exact Hp | exact A | exact B]. }
+  assert (Eparams: s_params (norm_sig c s) = map (norm_param c) (s_params s)).
+  { unfold norm_sig. rewrite Hself. cbn [s_params]. destruct (map (norm_param c) (s_params s)); reflexivity. }
+  unfold print_sig. rewrite Eparams.
+  assert (Ebody: print_body c (map (norm_param c) (s_params s)) = print_body c (s_params s)).
+  { rewrite (no_mut_body c (s_params s) Hmut). apply no_mut_body. apply norm_param_nomut. exact Hmut. }
+  rewrite Ebody.
+  assert (Eret: (let ret := print_ty (ctx_plain c) (s_ret (norm_sig c s)) in
+                 if tokens_eqb ret [TName id_nothing] then [TName id_Never] else ret) =
+                (let ret := print_ty (ctx_plain c) (s_ret s) in
+                 if tokens_eqb ret [TName id_nothing] then [TName id_Never] else ret)).
+  { unfold norm_sig. cbn [s_ret]. unfold norm_ret. cbv zeta.
+    destruct (tokens_eqb (print_ty (ctx_plain c) (s_ret s)) [TName id_nothing]) eqn:En.
+    - reflexivity.
+    - change (ctx_plain (ctx_plain c)) with (ctx_plain c).
+      rewrite (print_norm_lemma env (ctx_plain c) (s_ret s) Hret Sret). rewrite En. reflexivity. }
+  cbv zeta in Eret. cbv zeta. rewrite Eret.
+  assert (Estar: match s_star (norm_sig c s) with Some st => Some (print_container c st) | None => None end =
+                 match s_star s with Some st => Some (print_container c st) | None => None end).
+  { unfold norm_sig. cbn [s_star]. destruct (s_star s) as [st|] eqn:E; [|reflexivity]. f_equal.
+    apply andb_true_iff in Sstar. destruct Sstar as [A B].
+    apply (print_container_norm_star env); [apply Hstar; reflexivity | exact A | exact B]. }
+  assert (Esstar: match s_sstar (norm_sig c s) with Some st => [TDStar :: print_container c st] | None => [] end =
+                  match s_sstar s with Some st => [TDStar :: print_container c st] | None => [] end).
+  { unfold norm_sig. cbn [s_sstar]. destruct (s_sstar s) as [st|] eqn:E; [|reflexivity]. f_equal. f_equal.
+    apply andb_true_iff in Ssstar. destruct Ssstar as [A B].
+    apply (print_container_norm_sstar env); [apply Hsstar; reflexivity | exact A | exact B]. }
+  rewrite Estar, Esstar. rewrite (params_loop_norm env c _ _ Hall). reflexivity.
+Qed.
+
+Theorem sig_fixed_point_lemma : forall env scope c s,
+  wf_sig env scope c s = true -> simple_sig c s = true -> stable_sig c s = true ->
+  exists s', parse_sig env scope (print_sig c s) = Some s' /\ print_sig c s' = print_sig c s.
+Proof.
+  intros env scope c s H1 H2 H3. exists (norm_sig c s). split.
+  - apply parse_sig_print_lemma; assumption.
+  - apply (print_sig_norm_lemma env scope); assumption.
+Qed.
+
+(* ---- structural equality and VerifyVisitor for signatures ---- *)
+
+Lemma pkind_eqb_refl : forall k, pkind_eqb k k = true.
+Proof. destruct k; reflexivity. Qed.
+
+Lemma norm_sig_simple : forall c s, self_mutated c s = false ->
+  norm_sig c s =
+  mkSig (map (norm_param c) (s_params s))
+        (match s_star s with Some st => Some (norm_star c st) | None => None end)
+        (match s_sstar s with Some st => Some (norm_sstar c st) | None => None end)
+        (norm_ret c (s_ret s)).
+Proof. intros c s H. unfold norm_sig. rewrite H. destruct (map (norm_param c) (s_params s)); reflexivity. Qed.
+
+Theorem sig_reparse_equal_lemma : forall env scope c s,
+  wf_sig env scope c s = true -> simple_sig c s = true -> stable_sig c s = true -> eq_stable_sig c s = true ->
+  sig_eq (norm_sig c s) (unqual_sig s) = true.
+Proof.
+  intros env scope c s Hwf Hsimple Hst Heq.
+  unfold simple_sig in Hsimple. apply andb_true_iff in Hsimple. destruct Hsimple as [Hmut Hself].
+  apply negb_true_iff in Hself.
+  destruct (wf_sig_parts env scope c s Hwf) as (Hps & Hk & Hd & Hstar & Hsstar & Hret & Hnev).
+  unfold stable_sig in Hst. repeat (apply andb_true_iff in Hst; destruct Hst as [Hst ?]).
+  rename H into Hnoself, H0 into Sret, H1 into Ssstar, H2 into Sstar.
+  unfold eq_stable_sig in Heq. repeat (apply andb_true_iff in Heq; destruct Heq as [Heq ?]).
+  rename H into Enn, H0 into Eret, H1 into Esstar, H2 into Estar.
+  apply negb_true_iff in Enn.
+  rewrite (norm_sig_simple c s Hself). unfold sig_eq, unqual_sig. cbn [s_params s_star s_sstar s_ret].
+  repeat (apply andb_true_iff; split).
+  - (* parameters *)
+    apply list_eqb_map. intros p Hp. unfold param_eq, norm_param, unqual_param. cbn [p_name p_ty p_kind p_opt p_mut].
+    rewrite N.eqb_refl, pkind_eqb_refl, Bool.eqb_reflx.
+    rewrite forallb_forall in Hmut, Hst, Heq. specialize (Hmut p Hp). specialize (Hst p Hp). specialize (Heq p Hp).
+    destruct (p_mut p); [discriminate|]. cbn [opt_eq andb]. rewrite !andb_true_r.
+    apply andb_true_iff in Hst. destruct Hst as [Hst _]. apply andb_true_iff in Hst. destruct Hst as [St _].
+    apply andb_true_iff in Heq. destruct Heq as [Et Hshown].
+    unfold norm_pty, shown in *.
+    destruct (elided c (p_name p) (p_ty p) (print_ty (ctx_param c) (p_ty p))).
+    + rewrite orb_false_r in Hshown. destruct (p_ty p); try discriminate. reflexivity.
+    + apply (reparse_equal_lemma env); [apply Hps; exact Hp | exact St | exact Et].
+  - (* *args *)
+    destruct (s_star s) as [[nm t]|] eqn:Es; [|reflexivity]. cbn [opt_eq].
+    specialize (Hstar _ eq_refl). unfold star_shape_t in Estar. cbn [fst snd] in *.
+    unfold star_eq, norm_star. cbn [fst snd].
+    apply andb_true_iff in Sstar. destruct Sstar as [Se _].
+    destruct t; try discriminate.
+    + cbn [container_elem]. rewrite elided_any. cbn [fst snd unqual ty_eq]. rewrite N.eqb_refl. exact Estar.
+    + destruct ps as [|e [|e2 pr]]; try discriminate.
+      apply andb_true_iff in Estar. destruct Estar as [Estar Ee]. apply andb_true_iff in Estar. destruct Estar as [En Enel].
+      apply negb_true_iff in Enel. cbn [container_elem last] in *. rewrite Enel. cbn [fst snd unqual ty_eq map list_eqb].
+      rewrite N.eqb_refl, En. cbn [andb]. rewrite andb_true_r.
+      unfold wf_container in Hstar. cbn [snd last] in Hstar. apply andb_true_iff in Hstar. destruct Hstar as [Hwe _].
+      apply (reparse_equal_lemma env); assumption.
+  - (* **kwargs *)
+    destruct (s_sstar s) as [[nm t]|] eqn:Es; [|reflexivity]. cbn [opt_eq].
+    specialize (Hsstar _ eq_refl). unfold star_shape_d in Esstar. cbn [fst snd] in *.
+    unfold star_eq, norm_sstar. cbn [fst snd].
+    apply andb_true_iff in Ssstar. destruct Ssstar as [Se _].
+    destruct t; try discriminate.
+    + cbn [container_elem]. rewrite elided_any. cbn [fst snd unqual ty_eq]. rewrite N.eqb_refl. exact Esstar.
+    + destruct ps as [|k [|e [|e3 pr]]]; try discriminate.
+      apply andb_true_iff in Esstar. destruct Esstar as [Esstar Ee]. apply andb_true_iff in Esstar. destruct Esstar as [Esstar Enel].
+      apply andb_true_iff in Esstar. destruct Esstar as [En Ek].
+      apply negb_true_iff in Enel. cbn [container_elem last] in *. rewrite Enel. cbn [fst snd unqual ty_eq map list_eqb].
+      rewrite N.eqb_refl, En. cbn [andb]. rewrite andb_true_r.
+      unfold wf_container in Hsstar. cbn [snd last] in Hsstar. apply andb_true_iff in Hsstar. destruct Hsstar as [Hwe _].
+      cbn [ty_eq unqual] in Ek. rewrite Ek. cbn [andb]. apply (reparse_equal_lemma env); assumption.
+  - (* return type *)
+    unfold norm_ret. rewrite Enn. apply (reparse_equal_lemma env); assumption.
+Qed.
+
+Theorem sig_verify_ok_lemma : forall env scope c s,
+  wf_sig env scope c s = true -> simple_sig c s = true -> verify_sig (norm_sig c s) = true.
+Proof.
+  intros env scope c s Hwf Hsimple.
+  unfold simple_sig in Hsimple. apply andb_true_iff in Hsimple. destruct Hsimple as [Hmut Hself].
+  apply negb_true_iff in Hself.
+  destruct (wf_sig_parts env scope c s Hwf) as (Hps & Hk & Hd & Hstar & Hsstar & Hret & Hnev).
+  rewrite (norm_sig_simple c s Hself). unfold verify_sig. cbn [s_params s_star s_sstar s_ret].
+  repeat (apply andb_true_iff; split).
+  - rewrite forallb_forall. intros q Hq. apply in_map_iff in Hq. destruct Hq as (p & <- & Hp).
+    unfold norm_param. cbn [p_ty p_mut]. rewrite forallb_forall in Hmut. specialize (Hmut p Hp).
+    destruct (p_mut p); [discriminate|]. rewrite andb_true_r. unfold norm_pty.
+    destruct (elided c (p_name p) (p_ty p) (print_ty (ctx_param c) (p_ty p))); [reflexivity|].
+    apply (verify_ok_lemma env). apply Hps. exact Hp.
+  - destruct (s_star s) as [[nm t]|] eqn:Es; [|reflexivity]. specialize (Hstar _ eq_refl).
+    unfold norm_star. cbn [fst snd].
+    destruct (elided c nm (container_elem t) (print_ty (ctx_param c) (container_elem t))); [reflexivity|].
+    cbn [snd verify_ty forallb]. rewrite andb_true_r. apply (verify_ok_lemma env).
+    unfold wf_container in Hstar. cbn [snd] in Hstar. destruct t; try discriminate; cbn [container_elem]; [reflexivity|].
+    apply andb_true_iff in Hstar. apply Hstar.
+  - destruct (s_sstar s) as [[nm t]|] eqn:Es; [|reflexivity]. specialize (Hsstar _ eq_refl).
+    unfold norm_sstar. cbn [fst snd].
+    destruct (elided c nm (container_elem t) (print_ty (ctx_param c) (container_elem t))); [reflexivity|].
+    cbn [snd verify_ty forallb]. rewrite andb_true_r. apply (verify_ok_lemma env).
+    unfold wf_container in Hsstar. cbn [snd] in Hsstar. destruct t; try discriminate; cbn [container_elem]; [reflexivity|].
+    apply andb_true_iff in Hsstar. apply Hsstar.
+  - unfold norm_ret. destruct (tokens_eqb _ _); [reflexivity|]. apply (verify_ok_lemma env). exact Hret.
 Qed.
